@@ -32,13 +32,20 @@ Section Sim.
     iv_cbs : ns_cbs ns = ns_cbs N0;
     iv_ti : ns_test_ids ns = true;
     iv_ls : ls_ok (ns_ls ns);
-    iv_obs : True;
+    iv_cnt : ns_counters ns = [];
     iv_start : ns_start_place ns = 0;
     iv_final : ns_final_place ns = 1;
     iv_npl : List.length (ns_places ns) = List.length (ns_places N0);
     iv_napi : List.length (ns_apis ns) = List.length (ns_apis N0);
     iv_dict : exists d, ns_place_dict ns = d ++ ns_place_dict N0 /\
-                        Forall (fun kv => exists i, fst kv = ITest i /\ i < ns_sid ns) d
+                        Forall (fun kv => exists i, fst kv = ITest i /\ i < ns_sid ns) d;
+    (* every API record is the generated one up to its current identifier; a service's
+       identifier is bound to the 'finished' place of that service *)
+    iv_ready : forall k a0, nth_error (ns_apis N0) k = Some a0 ->
+               exists u, nth_error (ns_apis ns) k = Some (with_uuid u a0) /\
+                         (a_is_task a0 = false -> forall k', a_uuid a0 = IUuid k' ->
+                          dict_get ident_eqb u (ns_place_dict ns) = dict_get ident_eqb (IUuid k') (ns_place_dict N0) /\
+                          forall i, u = ITest i -> i < ns_sid ns)
   }.
 
   (* ---- scheduler bookkeeping of the two models; [pend] = the engine's pending services ---- *)
@@ -69,18 +76,25 @@ Section Sim.
   (* ---- the four callbacks as [RunCb] facts ---- *)
   Lemma RunCb_TS : forall ai s a,
       ls_ok (ns_ls s) -> ns_test_ids s = true ->
-      nth_error (ns_apis s) ai = Some a -> a_in_loop a = false ->
+      nth_error (ns_apis s) ai = Some a -> a_params a = a_src a ->
+      (forall ci, a_ctx a = Some ci -> exists c, nth_error (ns_apis s) ci = Some c) -> ns_counters s = [] ->
       RunCb tasks env (CbTS ai) s (notified TS (with_uuid (ITest (ns_tid s)) a) false (ts_pre ai s)).
   Proof.
-    intros. exists 4. intros f Hf. do 4 (destruct f as [|f]; [lia|]). apply run_cb_TS; assumption.
+    intros ai s a Hls Hti Ha Hps Hc Hn. exists 4. intros f Hf. do 4 (destruct f as [|f]; [lia|]).
+    destruct (a_in_loop a) eqn:E; [apply run_cb_TS_loop|apply run_cb_TS]; assumption.
   Qed.
+  (* the state in which the notification of a started service is sent; a service inside a loop
+     body has drawn a uuid4 before *)
+  Definition ss_st (il : bool) (ai p : nat) (s : NS) : NS := if il then ss_pre_loop ai p s else ss_pre ai p s.
   Lemma RunCb_SS : forall ai s a p,
       ls_ok (ns_ls s) -> ns_test_ids s = true ->
-      nth_error (ns_apis s) ai = Some a -> a_in_loop a = false ->
+      nth_error (ns_apis s) ai = Some a -> a_params a = a_src a ->
+      (forall ci, a_ctx a = Some ci -> exists c, nth_error (ns_apis s) ci = Some c) -> ns_counters s = [] ->
       dict_get ident_eqb (a_uuid a) (ns_place_dict s) = Some p ->
-      RunCb tasks env (CbSS ai) s (notified SS (with_uuid (ITest (ns_sid s)) a) false (ss_pre ai p s)).
+      RunCb tasks env (CbSS ai) s (notified SS (with_uuid (ITest (ns_sid s)) a) false (ss_st (a_in_loop a) ai p s)).
   Proof.
-    intros. exists 4. intros f Hf. do 4 (destruct f as [|f]; [lia|]). apply run_cb_SS; assumption.
+    intros ai s a p Hls Hti Ha Hps Hc Hn Hd. exists 4. intros f Hf. do 4 (destruct f as [|f]; [lia|]).
+    unfold ss_st. destruct (a_in_loop a) eqn:E; [apply run_cb_SS_loop|apply run_cb_SS]; assumption.
   Qed.
   Lemma RunCb_SF : forall ai s a,
       ls_ok (ns_ls s) -> nth_error (ns_apis s) ai = Some a ->
@@ -117,55 +131,95 @@ Section Sim.
     exists ac, nth_error (ns_apis ns) ctx = Some ac /\ a_uuid ac = ITest cid.
 
   (* ---- starting a service ---- *)
-  Lemma sim_SS : forall f n at_ ins ctx cid a fin g st g' ns pend,
+  Lemma with_uuid_uuid : forall u v a, with_uuid v (with_uuid u a) = with_uuid v a.
+  Proof. reflexivity. Qed.
+  Lemma with_uuid_inj : forall u v a b, with_uuid u a = with_uuid v b -> u = v /\ forall w, with_uuid w a = with_uuid w b.
+  Proof.
+    intros u v [a1 a2 a3 a4 a5 a6 a7 a8 a9] [b1 b2 b3 b4 b5 b6 b7 b8 b9] H. unfold with_uuid in H. cbn in H.
+    injection H as E1 E2 E3 E4 E5 E6 E7 E8 E9. subst. split; reflexivity.
+  Qed.
+
+  Lemma sim_SS : forall f il u n at_ ins ctx cid a fin g st g' ns pend,
       start_stmt orc imm (S f) cid [] (XService n at_ ins) g = Ok (st, g') ->
       Inv ns -> GR g ns pend ->
-      nth_error (ns_apis ns) a = Some (svc_api n at_ ins ctx a) ->
-      dict_get ident_eqb (IUuid a) (ns_place_dict ns) = Some fin ->
+      nth_error (ns_apis ns) a = Some (with_uuid u (svc_api il n at_ ins ctx a)) ->
+      dict_get ident_eqb u (ns_place_dict ns) = Some fin ->
       ctx_is ns ctx cid -> ctx <> a ->
-      let ns' := notified SS (with_uuid (ITest (ns_sid ns)) (svc_api n at_ ins ctx a)) false (ss_pre a fin ns) in
+      let ns' := notified SS (with_uuid (ITest (ns_sid ns)) (svc_api il n at_ ins ctx a)) false (ss_st il a fin ns) in
       st = RAwait (g_sid g) /\ g_awaited g' = g_awaited g ++ [g_sid g] /\ g_sid g' = S (g_sid g) /\
       RunCb tasks env (CbSS a) ns ns' /\ ns_cbs ns' = ns_cbs ns /\ Inv ns' /\ GR g' ns' (pend ++ [g_sid g]) /\
       ns_places ns' = ns_places ns /\
       ns_apis ns' = upd a (with_uuid (ITest (g_sid g))) (ns_apis ns) /\
       ns_place_dict ns' = (ITest (g_sid g), fin) :: ns_place_dict ns.
   Proof.
-    intros f n at_ ins ctx cid a fin g st g' ns pend H Hinv Hgr Ha Hd (ac & Hac & Huc) Hne ns'.
-    destruct Hinv as [I1 I2 I3 I4 I5 I6 I7 I8 I9 (d & Id & Ik)].
+    intros f il u n at_ ins ctx cid a fin g st g' ns pend H Hinv Hgr Ha Hd (ac & Hac & Huc) Hne ns'.
+    destruct Hinv as [I1 I2 I3 I4 I5 I6 I7 I8 I9 (d & Id & Ik) I11].
     destruct Hgr as [G1 G2 G3 G4 G5 G6 G7 G8 G9 G10].
     cbn [start_stmt] in H. unfold bind, fresh_s, await, set_awaited, emit, tick_ss in H.
     rewrite emit_gen_eq in H. cbn [g_ss set] in H. rewrite Himm in H. unfold ret in H.
     inversion H; subst st g'; clear H.
+    set (PRE := ss_st il a fin ns) in *.
+    assert (E_apis : ns_apis PRE = upd a (with_uuid (ITest (ns_sid ns))) (ns_apis ns)) by (unfold PRE, ss_st; destruct il; reflexivity).
+    assert (E_dict : ns_place_dict PRE = (ITest (ns_sid ns), fin) :: ns_place_dict ns) by (unfold PRE, ss_st; destruct il; reflexivity).
+    assert (E_sid : ns_sid PRE = S (ns_sid ns)) by (unfold PRE, ss_st; destruct il; reflexivity).
+    assert (E_aw : ns_awaited PRE = ns_awaited ns ++ [EvFinish (ITest (ns_sid ns))]) by (unfold PRE, ss_st; destruct il; reflexivity).
+    assert (E_trans : ns_trans PRE = ns_trans ns) by (unfold PRE, ss_st; destruct il; reflexivity).
+    assert (E_cbs : ns_cbs PRE = ns_cbs ns) by (unfold PRE, ss_st; destruct il; reflexivity).
+    assert (E_ti : ns_test_ids PRE = ns_test_ids ns) by (unfold PRE, ss_st; destruct il; reflexivity).
+    assert (E_ls : ns_ls PRE = ns_ls ns) by (unfold PRE, ss_st; destruct il; reflexivity).
+    assert (E_obs : ns_obs PRE = ns_obs ns) by (unfold PRE, ss_st; destruct il; reflexivity).
+    assert (E_st : ns_start_place PRE = ns_start_place ns) by (unfold PRE, ss_st; destruct il; reflexivity).
+    assert (E_fi : ns_final_place PRE = ns_final_place ns) by (unfold PRE, ss_st; destruct il; reflexivity).
+    assert (E_pl : ns_places PRE = ns_places ns) by (unfold PRE, ss_st; destruct il; reflexivity).
+    assert (E_cn : ns_counters PRE = ns_counters ns) by (unfold PRE, ss_st; destruct il; reflexivity).
+    assert (E_tid : ns_tid PRE = ns_tid ns) by (unfold PRE, ss_st; destruct il; reflexivity).
+    assert (E_nss : ns_nss PRE = ns_nss ns) by (unfold PRE, ss_st; destruct il; reflexivity).
+    assert (E_run : ns_running PRE = ns_running ns) by (unfold PRE, ss_st; destruct il; reflexivity).
+    assert (E_log : ns_log PRE = ns_log ns) by (unfold PRE, ss_st; destruct il; reflexivity).
+    assert (E_pend : ns_pending PRE = ns_pending ns) by (unfold PRE, ss_st; destruct il; reflexivity).
+    assert (E_q : ns_q PRE = ns_q ns) by (unfold PRE, ss_st; destruct il; reflexivity).
     split; [reflexivity|]. split; [reflexivity|]. split; [reflexivity|].
-    split; [apply RunCb_SS; try assumption; reflexivity|].
-    unfold ns'. split; [rewrite nf_cbs; reflexivity|].
+    split.
+    { pose proof (RunCb_SS a ns _ fin I4 I3 Ha eq_refl) as Hr. cbn [with_uuid a_uuid a_in_loop svc_api] in Hr.
+      apply Hr; [|exact I5|exact Hd]. intros ci Hci. cbn [a_ctx] in Hci. inversion Hci; subst ci. exists ac. exact Hac. }
+    unfold ns'. split; [rewrite nf_cbs; exact E_cbs|].
     split; [|split; [|split; [|split]]].
     - constructor; rewrite ?nf_trans, ?nf_cbs, ?nf_test_ids, ?nf_ls, ?nf_obs, ?nf_start_place, ?nf_final_place,
-                   ?nf_places, ?nf_apis, ?nf_place_dict, ?nf_sid; try assumption.
-      + change (ns_apis (ss_pre a fin ns)) with (upd a (with_uuid (ITest (ns_sid ns))) (ns_apis ns)).
-        rewrite upd_length. exact I9.
-      + change (ns_place_dict (ss_pre a fin ns)) with ((ITest (ns_sid ns), fin) :: ns_place_dict ns).
-        change (ns_sid (ss_pre a fin ns)) with (S (ns_sid ns)).
+                   ?nf_places, ?nf_apis, ?nf_place_dict, ?nf_sid, ?nf_counters,
+                   ?E_trans, ?E_cbs, ?E_ti, ?E_ls, ?E_st, ?E_fi, ?E_pl, ?E_cn; try assumption.
+      + rewrite E_apis, upd_length. exact I9.
+      + rewrite E_dict, E_sid.
         exists ((ITest (ns_sid ns), fin) :: d). split; [rewrite Id; reflexivity|].
         constructor; [exists (ns_sid ns); split; [reflexivity|lia]|].
         eapply Forall_impl; [|exact Ik]. intros kv (i & E & Hi). exists i. split; [exact E|lia].
-    - constructor; rewrite ?nf_tid, ?nf_sid, ?nf_nss, ?nf_running, ?nf_log, ?nf_awaited, ?nf_pending; cbn [g_tid g_sid g_ss g_running g_log g_ls g_obs g_awaited set]; try assumption.
-      + change (ns_sid (ss_pre a fin ns)) with (S (ns_sid ns)). congruence.
-      + change (ns_nss (ss_pre a fin ns)) with (ns_nss ns). congruence.
-      + change (ns_log (ss_pre a fin ns)) with (ns_log ns). rewrite G5. f_equal. f_equal.
-        apply notif_entries_eq; try assumption; try reflexivity.
+      + intros k a0 Hk0. destruct (I11 k a0 Hk0) as (u0 & Hu0 & Hdk). rewrite E_apis, E_dict, E_sid.
+        destruct (Nat.eq_dec k a) as [->|Hka].
+        * exists (ITest (ns_sid ns)). rewrite (nth_error_upd_eq _ _ _ _ _ Hu0). split; [reflexivity|].
+          intros Hta k' Hk'. rewrite Ha in Hu0. pose proof (f_equal (option_map a_uuid) Hu0) as Eu.
+          cbn [option_map with_uuid a_uuid] in Eu. injection Eu as Eu. subst u0.
+          destruct (Hdk Hta k' Hk') as [D1 _]. cbn [dict_get ident_eqb]. rewrite Nat.eqb_refl.
+          split; [rewrite <- D1, Hd; reflexivity|]. intros i Hi. injection Hi as <-. lia.
+        * exists u0. rewrite nth_error_upd_neq by congruence. split; [exact Hu0|].
+          intros Hta k' Hk'. destruct (Hdk Hta k' Hk') as [D1 D2]. split.
+          -- cbn [dict_get]. destruct (ident_eqb u0 (ITest (ns_sid ns))) eqn:Eq; [|exact D1].
+             exfalso. destruct u0 as [i0|k0]; cbn [ident_eqb] in Eq; [|discriminate Eq].
+             apply Nat.eqb_eq in Eq. subst i0. specialize (D2 _ eq_refl). lia.
+          -- intros i Hi. specialize (D2 i Hi). lia.
+    - constructor; rewrite ?nf_tid, ?nf_sid, ?nf_nss, ?nf_running, ?nf_log, ?nf_awaited, ?nf_pending, ?nf_ls, ?nf_obs, ?nf_q,
+                   ?E_tid, ?E_sid, ?E_nss, ?E_run, ?E_log, ?E_ls, ?E_obs, ?E_q; cbn [g_tid g_sid g_ss g_running g_log g_ls g_obs g_awaited g_q set]; try assumption.
+      + congruence.
+      + congruence.
+      + rewrite G5. f_equal. f_equal.
+        apply notif_entries_eq; rewrite ?E_ls, ?E_obs, ?E_run; try assumption; try reflexivity.
         unfold notif_of, mk. cbn [a_name a_site a_uuid a_ctx a_params with_uuid svc_api ident_nat].
         rewrite subst_params_nil, G2. f_equal.
-        unfold ctx_uuid_nat.
-        change (ns_apis (ss_pre a fin ns)) with (upd a (with_uuid (ITest (ns_sid ns))) (ns_apis ns)).
+        unfold ctx_uuid_nat. rewrite E_apis.
         rewrite nth_error_upd_neq by congruence. rewrite Hac, Huc. reflexivity.
-      + change (ns_awaited (ss_pre a fin ns)) with (ns_awaited ns ++ [EvFinish (ITest (ns_sid ns))]).
-        rewrite G8, map_app, G2. reflexivity.
-      + unfold pend_after. cbn [a_uuid with_uuid].
-        change (ns_pending (ss_pre a fin ns)) with (ns_pending ns). rewrite G9, map_app, G2. reflexivity.
-    - rewrite nf_places. reflexivity.
-    - rewrite nf_apis, <- G2. reflexivity.
-    - rewrite nf_place_dict, <- G2. reflexivity.
+      + rewrite E_aw, G8, map_app, G2. reflexivity.
+      + unfold pend_after. cbn [a_uuid with_uuid]. rewrite E_pend, G9, map_app, G2. reflexivity.
+    - rewrite nf_places. exact E_pl.
+    - rewrite nf_apis, <- G2. exact E_apis.
+    - rewrite nf_place_dict, <- G2. exact E_dict.
   Qed.
 
   (* the context identifier a notification reports *)
@@ -194,7 +248,7 @@ Section Sim.
   (* ---- task started ---- *)
   Lemma sim_TS : forall a a0 ocid g g1 ns pend,
       Inv ns -> GR g ns pend ->
-      nth_error (ns_apis ns) a = Some a0 -> a_in_loop a0 = false ->
+      nth_error (ns_apis ns) a = Some a0 -> a_params a0 = a_src a0 -> a_is_task a0 = true ->
       octx_is ns a (a_ctx a0) ocid ->
       g_step g g1 (mk TS (a_name a0) (a_site a0) (g_tid g) ocid (a_params a0)) false
              (S (g_tid g)) (g_running g) ->
@@ -204,17 +258,27 @@ Section Sim.
       ns_apis ns' = upd a (with_uuid (ITest (g_tid g))) (ns_apis ns) /\
       ns_place_dict ns' = ns_place_dict ns.
   Proof.
-    intros a a0 ocid g g1 ns pend Hinv Hgr Ha Hl Hc (S1 & S2 & S3 & S4 & S5 & S6 & S7 & S8 & S9) ns'.
-    destruct Hinv as [I1 I2 I3 I4 I5 I6 I7 I8 I9 (d & Id & Ik)].
+    intros a a0 ocid g g1 ns pend Hinv Hgr Ha Hl Htask Hc (S1 & S2 & S3 & S4 & S5 & S6 & S7 & S8 & S9) ns'.
+    destruct Hinv as [I1 I2 I3 I4 I5 I6 I7 I8 I9 (d & Id & Ik) I11].
     destruct Hgr as [G1 G2 G3 G4 G5 G6 G7 G8 G9 G10].
-    split; [apply RunCb_TS; assumption|].
+    split.
+    { apply RunCb_TS; try assumption. intros ci Hci. rewrite Hci in Hc. destruct ocid as [cid0|]; cbn [octx_is] in Hc; [|contradiction].
+      destruct Hc as [(ac & Hac & _) _]. exists ac. exact Hac. }
     unfold ns'. split; [rewrite nf_cbs; reflexivity|].
     split; [|split; [|split; [|split]]].
     - constructor; rewrite ?nf_trans, ?nf_cbs, ?nf_test_ids, ?nf_ls, ?nf_obs, ?nf_start_place, ?nf_final_place,
-                   ?nf_places, ?nf_apis, ?nf_place_dict, ?nf_sid; try assumption.
+                   ?nf_places, ?nf_apis, ?nf_place_dict, ?nf_sid, ?nf_counters; try assumption.
       + change (ns_apis (ts_pre a ns)) with (upd a (with_uuid (ITest (ns_tid ns))) (ns_apis ns)).
         rewrite upd_length. exact I9.
       + exists d. split; [exact Id|exact Ik].
+      + intros k b0 Hk0. destruct (I11 k b0 Hk0) as (u0 & Hu0 & Hdk).
+        change (ns_apis (ts_pre a ns)) with (upd a (with_uuid (ITest (ns_tid ns))) (ns_apis ns)).
+        change (ns_place_dict (ts_pre a ns)) with (ns_place_dict ns). change (ns_sid (ts_pre a ns)) with (ns_sid ns).
+        destruct (Nat.eq_dec k a) as [->|Hka].
+        * exists (ITest (ns_tid ns)). rewrite (nth_error_upd_eq _ _ _ _ _ Hu0). split; [reflexivity|].
+          intros Hta. exfalso. rewrite Ha in Hu0. pose proof (f_equal (option_map a_is_task) Hu0) as Et.
+          cbn [option_map with_uuid a_is_task] in Et. injection Et as Et. congruence.
+        * exists u0. rewrite nth_error_upd_neq by congruence. split; [exact Hu0|exact Hdk].
     - constructor; rewrite ?nf_tid, ?nf_sid, ?nf_nss, ?nf_running, ?nf_log, ?nf_awaited, ?nf_pending, ?nf_ls, ?nf_obs.
       + change (ns_tid (ts_pre a ns)) with (S (ns_tid ns)). congruence.
       + change (ns_sid (ts_pre a ns)) with (ns_sid ns). congruence.
@@ -263,12 +327,12 @@ Section Sim.
       ns_places ns' = ns_places ns /\ ns_apis ns' = ns_apis ns /\ ns_place_dict ns' = ns_place_dict ns.
   Proof.
     intros k a a1 ocid fin g g1 ns pend pend' Hk Hinv Hgr Ha Hc Hp (S1 & S2 & S3 & S4 & S5 & S6 & S7 & S8 & S9) ns'.
-    destruct Hinv as [I1 I2 I3 I4 I5 I6 I7 I8 I9 (d & Id & Ik)].
+    destruct Hinv as [I1 I2 I3 I4 I5 I6 I7 I8 I9 (d & Id & Ik) I11].
     destruct Hgr as [G1 G2 G3 G4 G5 G6 G7 G8 G9 G10].
     unfold ns'. split; [rewrite nf_cbs; reflexivity|].
     split; [|split; [|split; [|split]]].
     - constructor; rewrite ?nf_trans, ?nf_cbs, ?nf_test_ids, ?nf_ls, ?nf_obs, ?nf_start_place, ?nf_final_place,
-                   ?nf_places, ?nf_apis, ?nf_place_dict, ?nf_sid; try assumption.
+                   ?nf_places, ?nf_apis, ?nf_place_dict, ?nf_sid, ?nf_counters; try assumption.
       exists d. split; [exact Id|exact Ik].
     - constructor; rewrite ?nf_tid, ?nf_sid, ?nf_nss, ?nf_running, ?nf_log, ?nf_awaited, ?nf_pending.
       + congruence.
@@ -345,7 +409,7 @@ Section Sim.
   Lemma Inv_fire : forall ns tr, Inv ns -> List.length (ns_places (fire_ns tr ns)) = List.length (ns_places ns) ->
                                  Inv (fire_ns tr ns).
   Proof.
-    intros ns tr [I1 I2 I3 I4 I5 I6 I7 I8 I9 I10] Hl. constructor; try assumption. congruence.
+    intros ns tr [I1 I2 I3 I4 I5 I6 I7 I8 I9 I10 I11] Hl. constructor; try assumption. congruence.
   Qed.
 
   Lemma GR_fire : forall g ns pend tr, GR g ns pend -> GR g (fire_ns tr ns) pend.
@@ -680,6 +744,31 @@ Section Sim.
       apply not_in_cnt. rewrite (Ao q Q2). apply not_in_cnt. exact Q3.
   Qed.
 
+  (* a component that waits, in surroundings that are blocked: nothing can fire *)
+  Lemma stmt_dis : forall s p ctx xcbs t2 st ns m m',
+      frag s = true -> wired N0 s p ctx xcbs -> is_done st = false ->
+      In (xplace s p) (preN N0 t2) ->
+      Hout (pp p) (pp p + nplaces s) (pt p) (pt p + ntrans s) t2 m ->
+      agrees_out (pp p) (pp p + nplaces s) m m' ->
+      agrees_in (pp p) (pp p + nplaces s) m' (ml st s p) ->
+      act N0 ns st s p ctx ->
+      forall j0, j0 < nT -> dis m' j0.
+  Proof.
+    intros s p ctx xcbs t2 st ns m m' Hf Hw Hnd Hx2 HO Ao Ai Hact j0 Hj0.
+    assert (Hx : dis m' t2).
+    { exists (xplace s p). split; [exact Hx2|]. apply not_in_cnt. rewrite (Ai _ (xplace_range s Hf p)).
+      apply not_in_cnt. intro Hi. destruct (ml_range N0 ns st s p ctx Hf Hact _ Hi) as [_ Hne]. congruence. }
+    destruct (Nat.lt_ge_cases j0 (pt p)) as [A|A]; [|destruct (Nat.lt_ge_cases j0 (pt p + ntrans s)) as [B|B]].
+    - destruct (Nat.eq_dec j0 t2) as [->|Hne]; [exact Hx|].
+      destruct (HO j0 Hj0 ltac:(lia) Hne) as (q & Q1 & Q2 & Q3). exists q. split; [exact Q1|].
+      apply not_in_cnt. rewrite (Ao q Q2). apply not_in_cnt. exact Q3.
+    - destruct (stable_blocked N0 ns N0 st s p ctx ctx xcbs Hf Hw Hact Hnd j0 ltac:(unfold in_t; lia)) as (q & Q1 & Q2 & Q3).
+      exists q. split; [exact Q1|]. apply not_in_cnt. rewrite (Ai q Q2). apply not_in_cnt. exact Q3.
+    - destruct (Nat.eq_dec j0 t2) as [->|Hne]; [exact Hx|].
+      destruct (HO j0 Hj0 ltac:(lia) Hne) as (q & Q1 & Q2 & Q3). exists q. split; [exact Q1|].
+      apply not_in_cnt. rewrite (Ao q Q2). apply not_in_cnt. exact Q3.
+  Qed.
+
   (* a complete block: only the transition that follows it can fire *)
   Lemma exited_only_t2_block : forall l bp ctx xcbs t2 m m',
       frag_block l = true -> wired_block (wired N0) N0 ctx xcbs l bp ->
@@ -704,9 +793,6 @@ Section Sim.
   (* =========================================================================== *)
   (* starting a component                                                         *)
   (* =========================================================================== *)
-  Definition fresh_in (ns : NS) (p : pos) (da : nat) : Prop :=
-    forall k, pa p <= k < pa p + da -> nth_error (ns_apis ns) k = nth_error (ns_apis N0) k.
-
   Lemma dict_IUuid : forall ns k, Inv ns ->
       dict_get ident_eqb (IUuid k) (ns_place_dict ns) = dict_get ident_eqb (IUuid k) (ns_place_dict N0).
   Proof.
@@ -775,7 +861,7 @@ Section Sim.
       frag s = true -> wired N0 s p ctx xcbs -> no_parloop xcbs = true ->
       pp p + nplaces s <= nP -> pt p + ntrans s <= nT ->
       t2 < nT -> ~ in_t s p t2 -> In (xplace s p) (preN N0 t2) ->
-      Inv ns -> GR g ns pend -> fresh_in ns p (napis s) -> ctx_is ns ctx cid -> ctx < pa p ->
+      Inv ns -> GR g ns pend -> ctx_is ns ctx cid -> ctx < pa p ->
       Marks ns m -> (forall q, in_p s p q -> cnt m q = cnt (entries s p) q) ->
       Hout (pp p) (pp p + nplaces s) (pt p) (pt p + ntrans s) t2 m ->
       exists ns' m', Enters (startcbs s p ctx) ns ns' (is_done st) xcbs /\
@@ -787,7 +873,7 @@ Section Sim.
   Lemma start_svc_case : forall f n at_ ins p ctx cid xcbs g st g' ns m pend,
       start_stmt orc imm (S f) cid [] (XService n at_ ins) g = Ok (st, g') ->
       wired N0 (XService n at_ ins) p ctx xcbs ->
-      Inv ns -> GR g ns pend -> fresh_in ns p 1 -> ctx_is ns ctx cid -> ctx < pa p ->
+      Inv ns -> GR g ns pend -> ctx_is ns ctx cid -> ctx < pa p ->
       Marks ns m -> (forall q, in_p (XService n at_ ins) p q -> cnt m q = cnt (entries (XService n at_ ins) p) q) ->
       exists ns' m', Enters (startcbs (XService n at_ ins) p ctx) ns ns' (is_done st) xcbs /\
                      Marks ns' m' /\ agrees_in (pp p) (pp p + 3) m' (mlx st (XService n at_ ins) p) /\
@@ -795,13 +881,11 @@ Section Sim.
                      StartRes ns ns' g g' pend (svc_ids st) p 1 /\
                      act N0 ns' st (XService n at_ ins) p ctx.
   Proof.
-    intros f n at_ ins p ctx cid xcbs g st g' ns m pend H Hw Hinv Hgr Hfr Hctx Hlt Hm Hin.
-    cbn [wired] in Hw. destruct Hw as (_ & _ & _ & Hapi & Hdict).
-    assert (Ha : nth_error (ns_apis ns) (pa p) = Some (svc_api n at_ ins ctx (pa p))).
-    { rewrite Hfr by lia. exact Hapi. }
-    assert (Hd : dict_get ident_eqb (IUuid (pa p)) (ns_place_dict ns) = Some (pp p + 1)).
-    { rewrite dict_IUuid by exact Hinv. exact Hdict. }
-    destruct (sim_SS f n at_ ins ctx cid (pa p) (pp p + 1) g st g' ns pend H Hinv Hgr Ha Hd Hctx ltac:(lia))
+    intros f n at_ ins p ctx cid xcbs g st g' ns m pend H Hw Hinv Hgr Hctx Hlt Hm Hin.
+    cbn [wired] in Hw. destruct Hw as (_ & _ & _ & (il & Hapi) & Hdict).
+    destruct (iv_ready _ Hinv _ _ Hapi) as (u & Ha & Hrd).
+    destruct (Hrd eq_refl (pa p) eq_refl) as [Hd _]. rewrite Hdict in Hd.
+    destruct (sim_SS f il u n at_ ins ctx cid (pa p) (pp p + 1) g st g' ns pend H Hinv Hgr Ha Hd Hctx ltac:(lia))
       as (-> & Haw & Hsid & Hrun & Hcbs & Hinv' & Hgr' & Hpl & Hap & Hdi).
     eexists. exists m. cbn [is_done Enters mlx].
     split; [apply Starts_RunList; eapply rl_cons; [exact Hrun|exact Hcbs|apply rl_nil]|].
@@ -814,7 +898,7 @@ Section Sim.
       split; [exact Haw|]. split; [lia|].
       exists [(ITest (g_sid g), pp p + 1)]. split; [rewrite Hdi; reflexivity|].
       constructor; [|constructor]. exists (g_sid g). split; [reflexivity|]. rewrite (gr_sid _ _ _ Hgr). lia.
-    - cbn [act]. split; [rewrite Hap; apply nth_error_upd_eq; exact Ha|].
+    - cbn [act]. split; [exists il; rewrite Hap, (nth_error_upd_eq _ _ _ _ _ Ha); reflexivity|].
       split; [rewrite Hdi; cbn [dict_get ident_eqb]; rewrite Nat.eqb_refl; reflexivity|].
       rewrite (gr_sid _ _ _ Hgr'), Hsid. lia.
   Qed.
@@ -857,17 +941,13 @@ Section Sim.
   Definition actb (ns : NS) (l : list xstmt) (bp : pos) (ctx : nat) (r : option (nat * rst)) : Prop :=
     match r with None => True | Some (j, st) => act_block N0 ns l bp ctx j st end.
   Definition is_none {A : Type} (o : option A) : bool := match o with None => true | Some _ => false end.
-  Definition fresh_from (ns : NS) (l : list xstmt) (bp : pos) (i : nat) : Prop :=
-    forall k s0 a, i <= k -> nth_error l k = Some s0 -> pa (spos l bp k) <= a < pa (spos l bp k) + napis s0 ->
-                   nth_error (ns_apis ns) a = nth_error (ns_apis N0) a.
-
   Definition StartBK (f : nat) : Prop :=
     forall l bp ctx cid xcbs t2 i s g r g' ns m pend,
       run_block orc imm f cid [] l i g = Ok (r, g') -> nth_error l i = Some s ->
       frag_block l = true -> wired_block (wired N0) N0 ctx xcbs l bp -> no_parloop xcbs = true ->
       pp bp + nplaces_l l <= nP -> pt bp + ntrans_b l <= nT ->
       t2 < nT -> ~ in_tb l bp t2 -> In (xplace_b l bp) (preN N0 t2) ->
-      Inv ns -> GR g ns pend -> fresh_from ns l bp i -> ctx_is ns ctx cid -> ctx < pa bp ->
+      Inv ns -> GR g ns pend -> ctx_is ns ctx cid -> ctx < pa bp ->
       Marks ns m -> (forall q, in_pb l bp q -> cnt m q = cnt (entries s (spos l bp i)) q) ->
       Hout (pp bp) (pp bp + nplaces_l l) (pt bp) (pt bp + ntrans_b l) t2 m ->
       exists ns' m', Enters (startcbs s (spos l bp i) ctx) ns ns' (is_none r) xcbs /\
@@ -898,7 +978,7 @@ Section Sim.
   Lemma start_block_case : forall f, (forall f0, f0 <= f -> StartOK f0) -> StartBK (S f).
   Proof.
     induction f as [|f IHf]; intros HS l bp ctx cid xcbs t2 i s g r g' ns m pend
-                                    H Hn Hf Hw Hnp HP HT Ht2 Hnt2 Hx2 Hinv Hgr Hfr Hctx Hlt Hm Hin HO.
+                                    H Hn Hf Hw Hnp HP HT Ht2 Hnt2 Hx2 Hinv Hgr Hctx Hlt Hm Hin HO.
     { rewrite run_block_S, Hn in H. mstep; discriminate. }
     rewrite run_block_S, Hn in H. mstep as st g1 E1.
     pose proof (frag_block_nth _ _ _ Hf Hn) as Hfs.
@@ -911,8 +991,7 @@ Section Sim.
     fold pi in Et2, T2, T3, Houti.
     assert (Hnpi : no_parloop (if Nat.eqb (S i) (List.length l) then xcbs else []) = true)
       by (destruct (Nat.eqb (S i) (List.length l)); [exact Hnp|reflexivity]).
-    assert (Hfri : fresh_in ns pi (napis s)) by (intros k Hk; apply (Hfr i s k (le_n _) Hn Hk)).
-    destruct (HS (S f) (le_n _) s pi ctx cid _ t2i g st g1 ns m pend E1 Hfs Ws Hnpi ltac:(lia) ltac:(lia) T1 T2 T3 Hinv Hgr Hfri Hctx
+    destruct (HS (S f) (le_n _) s pi ctx cid _ t2i g st g1 ns m pend E1 Hfs Ws Hnpi ltac:(lia) ltac:(lia) T1 T2 T3 Hinv Hgr Hctx
                  ltac:(lia) Hm ltac:(intros q Hq; apply Hin; unfold in_p, in_pb in *; lia) Houti)
       as (ns1 & m1 & Hen1 & Mk1 & Ai1 & Ao1 & Hres1 & Hact1).
     pose proof Hres1 as (Inv1 & Gr1 & Ap1 & Aw1 & Sid1 & Di1).
@@ -972,15 +1051,11 @@ Section Sim.
           assert (cnt (entries s' pj) q = 0) by (apply not_in_cnt; intro Hi; apply Hent' in Hi; unfold in_p in Hi; lia).
           destruct (inb (pp bp) (pp bp + nplaces_l l) q) eqn:E; [apply inb_spec in E; lia|].
           rewrite (Ao1 q ltac:(lia)). lia. }
-        assert (Hfrf : fresh_from nsf l bp (S i)).
-        { intros k s0 a Hk Hnk Ha. change (ns_apis nsf) with (ns_apis ns1).
-          pose proof (spos_mono l bp i k s s0 ltac:(lia) Hn Hnk) as Mk'. fold pi in Mk'.
-          rewrite Ap1 by lia. apply (Hfr k s0 a ltac:(lia) Hnk Ha). }
         assert (Hctxf : ctx_is nsf ctx cid).
         { destruct Hctx as (ac & Hac & Hu). exists ac. split; [|exact Hu]. change (ns_apis nsf) with (ns_apis ns1).
           rewrite Ap1 by lia. exact Hac. }
         destruct (IHf ltac:(intros f0 Hf0; apply HS; lia) l bp ctx cid xcbs t2 (S i) s' g1 r g' nsf m'' pend
-                      H En' Hf Hw Hnp HP HT Ht2 Hnt2 Hx2 Invf Grf Hfrf Hctxf Hlt Mkf Hin'' (Hout_out _ _ _ _ _ _ _ HO Hout''))
+                      H En' Hf Hw Hnp HP HT Ht2 Hnt2 Hx2 Invf Grf Hctxf Hlt Mkf Hin'' (Hout_out _ _ _ _ _ _ _ HO Hout''))
           as (ns2 & m2 & Hen2 & Mk2 & Ai2 & Ao2 & Hres2 & Hact2). fold pj in Hen2.
         pose proof Hres2 as (Inv2 & Gr2 & Ap2 & Aw2 & Sid2 & Di2).
         destruct Hen1 as [k Hk].
@@ -1026,9 +1101,7 @@ Section Sim.
         eapply (agrees_in_widen (pp pi) (pp pi + nplaces s)); [exact Ai1|exact Ao1|lia|lia|].
         intros q Hq Hnq. split; [apply Hz; [exact Hq|unfold in_p; lia]|].
         apply not_in_cnt. intro Hi. destruct (ml_range N0 ns1 st s pi ctx Hfs Hact1 q Hi) as [Hr _]. unfold in_p in Hr. lia.
-      + split; [exact D|]. split; [|rewrite Hn; exact Hact1].
-        intros k s0 a Hk Hnk Ha. pose proof (spos_mono l bp i k s s0 Hk Hn Hnk) as Mk'. fold pi in Mk'.
-        rewrite Ap1 by lia. apply (Hfr k s0 a ltac:(lia) Hnk Ha).
+      + split; [exact D|]. split; [reflexivity|rewrite Hn; exact Hact1].
   Qed.
 
   Lemma ids_list_snoc : forall st sts, ids_list (st :: sts) = svc_ids st ++ ids_list sts.
@@ -1064,7 +1137,7 @@ Section Sim.
         pp q + nplaces_l bs <= nP -> pt q + ntrans_l bs <= nT ->
         sync < nT -> ~ (pt q <= sync < pt q + ntrans_l bs) ->
         (forall k b, nth_error bs k = Some b -> In (xplace b (bpos bs q k)) (preN N0 sync)) ->
-        Inv ns -> GR g ns pend -> fresh_in ns q (napis_l bs) -> ctx_is ns ctx cid -> ctx < pa q ->
+        Inv ns -> GR g ns pend -> ctx_is ns ctx cid -> ctx < pa q ->
         Marks ns m ->
         (forall x, pp q <= x < pp q + nplaces_l bs -> cnt m x = cnt (cat_of entries bs q) x) ->
         Hout (pp q) (pp q + nplaces_l bs) (pt q) (pt q + ntrans_l bs) sync m ->
@@ -1078,7 +1151,7 @@ Section Sim.
   Proof.
     intros fl HS bs. revert fl HS.
     induction bs as [|b r IH]; intros fl HS q ctx cid sync pre_done g sts g' ns m pend
-                                      H Hf Hw HP HT Hsy Hnsy Hxs Hinv Hgr Hfr Hctx Hlt Hm Hin HO Hsync;
+                                      H Hf Hw HP HT Hsy Hnsy Hxs Hinv Hgr Hctx Hlt Hm Hin HO Hsync;
       (destruct fl as [|f]; [discriminate H|]).
     - cbn [map start_list] in H. mstep. exists ns, m. cbn [is_nil negb]. rewrite andb_false_r. cbn [Enters].
       split; [apply Starts_nil|]. split; [exact Hm|].
@@ -1090,7 +1163,7 @@ Section Sim.
     - cbn [map] in H. rewrite start_list_S in H. mstep as st g1 E1. mstep as sts1 g2 E2. mstep.
       pose proof Hf as Hfall. apply frag_brs_cons in Hf. destruct Hf as (_ & Hfb & Hfr').
       pose proof Hw as Hwall. cbn [wired_list] in Hw. destruct Hw as [Wb Wr].
-      rewrite nplaces_l_cons, ntrans_l_cons in *. rewrite napis_l_cons in Hfr.
+      rewrite nplaces_l_cons, ntrans_l_cons in *.
       set (q1 := adv b q) in *.
       assert (Hq1 : pp q1 = pp q + nplaces b /\ pt q1 = pt q + ntrans b /\ pa q1 = pa q + napis b) by (repeat split; reflexivity).
       destruct Hq1 as (Q1p & Q1t & Q1a).
@@ -1116,11 +1189,9 @@ Section Sim.
         - destruct (Hlater j ltac:(lia)) as (x & X1 & X2 & X3). exists x. split; [exact X1|]. split; [lia|]. apply not_in_cnt. exact X3.
         - destruct (HO j Hj ltac:(lia) Hne) as (x & X1 & X2 & X3). exists x. split; [exact X1|]. split; [lia|exact X3]. }
       destruct (HS f ltac:(lia) b q ctx cid [] sync g st g1 ns m pend E1 Hfb Wb eq_refl ltac:(lia) ltac:(lia) Hsy
-                   ltac:(unfold in_t; lia) (Hxs 0 b eq_refl) Hinv Hgr ltac:(intros k Hk; apply Hfr; lia) Hctx Hlt Hm Hinb Houtb)
+                   ltac:(unfold in_t; lia) (Hxs 0 b eq_refl) Hinv Hgr Hctx Hlt Hm Hinb Houtb)
         as (ns1 & m1 & Hen1 & Mk1 & Ai1 & Ao1 & Hres1 & Hact1).
       pose proof Hres1 as (Hinv1 & Hgr1 & Hap1 & Haw1 & Hsid1 & Hd1).
-      assert (Hfr1 : fresh_in ns1 q1 (napis_l r)).
-      { intros k Hk. rewrite Hap1 by lia. apply Hfr. lia. }
       assert (Hctx1 : ctx_is ns1 ctx cid).
       { destruct Hctx as (ac & Hac & Hu). exists ac. split; [rewrite Hap1 by lia; exact Hac|exact Hu]. }
       assert (Hin1 : forall x, pp q1 <= x < pp q1 + nplaces_l r -> cnt m1 x = cnt (cat_of entries r q1) x).
@@ -1176,7 +1247,7 @@ Section Sim.
               apply not_in_cnt. rewrite (Ao1 x ltac:(lia)). exact X3.
             + destruct (Hout1 j Hj ltac:(lia) Hne) as (x & X1 & X2 & X3). exists x. split; assumption. }
         destruct (IH f ltac:(intros f0 Hf0; apply HS; lia) q1 ctx cid sync (pre_done && is_done st) g1 sts1 g2 ns1 m1 (pend ++ svc_ids st) E2 Hfr' Wr
-                     ltac:(lia) ltac:(lia) Hsy ltac:(lia) ltac:(intros k b' Hb'; apply (Hxs (S k) b' Hb')) Hinv1 Hgr1 Hfr1 Hctx1
+                     ltac:(lia) ltac:(lia) Hsy ltac:(lia) ltac:(intros k b' Hb'; apply (Hxs (S k) b' Hb')) Hinv1 Hgr1 Hctx1
                      ltac:(lia) Mk1 Hin1 Hout1 Hsync1)
           as (ns2 & m2 & Hen2 & Mk2 & Ai2 & Ao2 & Hres2 & Hact2).
         pose proof Hres2 as (Hinv2 & Hgr2 & Hap2 & Haw2 & Hsid2 & Hd2).
@@ -1301,7 +1372,7 @@ Section Sim.
         frag (XCall t at_ ins bd) = true -> wired N0 (XCall t at_ ins bd) p ctx xcbs -> no_parloop xcbs = true ->
         pp p + nplaces (XCall t at_ ins bd) <= nP -> pt p + ntrans (XCall t at_ ins bd) <= nT ->
         t2 < nT -> ~ in_t (XCall t at_ ins bd) p t2 -> In (xplace (XCall t at_ ins bd) p) (preN N0 t2) ->
-        Inv ns -> GR g ns pend -> fresh_in ns p (napis (XCall t at_ ins bd)) -> ctx_is ns ctx cid -> ctx < pa p ->
+        Inv ns -> GR g ns pend -> ctx_is ns ctx cid -> ctx < pa p ->
         Marks ns m -> (forall q, in_p (XCall t at_ ins bd) p q -> cnt m q = cnt (entries (XCall t at_ ins bd) p) q) ->
         Hout (pp p) (pp p + nplaces (XCall t at_ ins bd)) (pt p) (pt p + ntrans (XCall t at_ ins bd)) t2 m ->
         exists ns' m', Enters (startcbs (XCall t at_ ins bd) p ctx) ns ns' (is_done st) xcbs /\
@@ -1310,7 +1381,7 @@ Section Sim.
                        StartRes ns ns' g g' pend (svc_ids st) p (napis (XCall t at_ ins bd)) /\
                        act N0 ns' st (XCall t at_ ins bd) p ctx.
   Proof.
-    intros f IHf t at_ ins bd p ctx cid xcbs t2 g st g' ns m pend H Hf Hw Hnp HP HT Ht2 Hnt2 Hx2 Hinv Hgr Hfr Hctx Hlt Hm Hin HO.
+    intros f IHf t at_ ins bd p ctx cid xcbs t2 g st g' ns m pend H Hf Hw Hnp HP HT Ht2 Hnt2 Hx2 Hinv Hgr Hctx Hlt Hm Hin HO.
     pose proof (frag_call _ _ _ _ Hf) as [Hname Hfb].
     rewrite nplaces_call, ntrans_call, napis_call in *. unfold in_t, in_p in *. rewrite ?nplaces_call, ?ntrans_call in *.
     cbn [xplace] in Hx2.
@@ -1319,36 +1390,32 @@ Section Sim.
     rewrite emit_gen_eq in H.
     set (g1 := (g <| g_tid := S (g_tid g) |>) <| g_log := _ |>) in H.
     mstep as r g2 E2.
-    cbn [wired] in Hw. destruct Hw as [Hapi Hwb].
-    assert (Ha : nth_error (ns_apis ns) (pa p) = Some (call_api t at_ ins ctx (pa p))).
-    { rewrite Hfr by lia. exact Hapi. }
-    destruct (sim_TS (pa p) (call_api t at_ ins ctx (pa p)) (Some cid) g g1 ns pend Hinv Hgr Ha eq_refl)
+    cbn [wired] in Hw. destruct Hw as [(il & Hapi) Hwb].
+    destruct (iv_ready _ Hinv _ _ Hapi) as (u & Ha & _).
+    destruct (sim_TS (pa p) (with_uuid u (call_api il t at_ ins ctx (pa p))) (Some cid) g g1 ns pend Hinv Hgr Ha eq_refl eq_refl)
       as (Hrun & Hcbs & Hinv1 & Hgr1 & Hpl1 & Hap1 & Hd1).
-    { cbn [octx_is call_api a_ctx]. split; [exact Hctx|lia]. }
-    { unfold g1, g_step. cbn [call_api a_name a_site a_params]. rewrite subst_params_nil.
+    { cbn [octx_is call_api a_ctx with_uuid]. split; [exact Hctx|lia]. }
+    { unfold g1, g_step. cbn [call_api a_name a_site a_params with_uuid]. rewrite subst_params_nil.
       repeat split; reflexivity. }
-    set (ns1 := notified TS (with_uuid (ITest (ns_tid ns)) (call_api t at_ ins ctx (pa p))) false (ts_pre (pa p) ns)) in *.
-    set (a1 := with_uuid (ITest (g_tid g)) (call_api t at_ ins ctx (pa p))).
+    set (ns1 := notified TS (with_uuid (ITest (ns_tid ns)) (with_uuid u (call_api il t at_ ins ctx (pa p)))) false (ts_pre (pa p) ns)) in *.
+    set (a1 := with_uuid (ITest (g_tid g)) (call_api il t at_ ins ctx (pa p))).
     assert (Hn0' : exists s0, nth_error bd 0 = Some s0) by (destruct bd; [discriminate Hfb|eexists; reflexivity]).
     destruct Hn0' as [s0 Hn0].
     set (bp := body_pos p) in *.
-    assert (Hfr1 : fresh_from ns1 bd bp 0).
-    { intros k s1 a Hk Hn1 Hka. pose proof (spos_range bd bp k s1 Hn1) as Rk. cbn [bp body_pos pa] in Rk. fold bp in Rk.
-      rewrite Hap1, nth_error_upd_neq by lia. apply Hfr. lia. }
     assert (Hctx1 : ctx_is ns1 (pa p) (g_tid g)).
     { eexists. split; [rewrite Hap1; apply nth_error_upd_eq; exact Ha|reflexivity]. }
     assert (Hm1 : Marks ns1 m) by (eapply Marks_places; [exact Hpl1|exact Hm]).
     assert (Hnp' : no_parloop (CbTF (pa p) :: xcbs) = true) by exact Hnp.
     destruct f as [|f']; [discriminate E2|].
     destruct (start_block_case f' ltac:(intros f0 Hf0; apply IHf; lia) bd bp (pa p) (g_tid g) (CbTF (pa p) :: xcbs) t2 0 s0 g1 r g2 ns1 m pend
-                               E2 Hn0 Hfb Hwb Hnp' HP HT Ht2 ltac:(unfold in_tb; cbn [bp body_pos pt]; lia) Hx2 Hinv1 Hgr1 Hfr1 Hctx1
+                               E2 Hn0 Hfb Hwb Hnp' HP HT Ht2 ltac:(unfold in_tb; cbn [bp body_pos pt]; lia) Hx2 Hinv1 Hgr1 Hctx1
                                ltac:(cbn [bp body_pos pa]; lia) Hm1)
       as (ns2 & m2 & Hen2 & Mk2 & Ai2 & Ao2 & Hres2 & Hact2).
     { intros q Hq. rewrite (Hin q Hq), entries_call, (entries_b_nth0 _ _ _ Hn0). reflexivity. }
     { exact HO. }
     pose proof Hres2 as (Hinv2 & Hgr2 & Hap2 & Haw2 & Hsid2 & Hd2).
     assert (Hapi2 : nth_error (ns_apis ns2) (pa p) = Some a1).
-    { rewrite Hap2 by (cbn [bp body_pos pa]; lia). rewrite Hap1. apply nth_error_upd_eq. exact Ha. }
+    { rewrite Hap2 by (cbn [bp body_pos pa]; lia). rewrite Hap1. rewrite (nth_error_upd_eq _ _ _ _ _ Ha). reflexivity. }
     assert (Hres12 : StartRes ns ns2 g g2 pend (ids_opt r) p (S (napis_l bd))).
     { split; [exact Hinv2|]. split; [exact Hgr2|].
       split; [intros k Hk; rewrite Hap2 by (cbn [bp body_pos pa]; lia); rewrite Hap1; apply nth_error_upd_neq; lia|].
@@ -1363,7 +1430,7 @@ Section Sim.
       split; [eapply Starts_cons; [exact Hrun|exact Hcbs|exact Hen2]|].
       split; [exact Mk2|]. split; [rewrite ml_call; exact Ai2|]. split; [exact Ao2|]. split; [exact Hres12|].
       rewrite act_call. fold bp. split; [|exact Hact2].
-      exact Hapi2.
+      exists il. exact Hapi2.
     - (* the body is complete: task finished *)
       unfold bind at 1 in H. unfold emit at 1 in H. rewrite emit_gen_eq in H.
       unfold ret in H. injection H as Hs Hg. subst st.
@@ -1410,7 +1477,7 @@ Section Sim.
         frag (XParallel bs) = true -> wired N0 (XParallel bs) p ctx xcbs -> no_parloop xcbs = true ->
         pp p + nplaces (XParallel bs) <= nP -> pt p + ntrans (XParallel bs) <= nT ->
         t2 < nT -> ~ in_t (XParallel bs) p t2 -> In (xplace (XParallel bs) p) (preN N0 t2) ->
-        Inv ns -> GR g ns pend -> fresh_in ns p (napis (XParallel bs)) -> ctx_is ns ctx cid -> ctx < pa p ->
+        Inv ns -> GR g ns pend -> ctx_is ns ctx cid -> ctx < pa p ->
         Marks ns m -> (forall q, in_p (XParallel bs) p q -> cnt m q = cnt (entries (XParallel bs) p) q) ->
         Hout (pp p) (pp p + nplaces (XParallel bs)) (pt p) (pt p + ntrans (XParallel bs)) t2 m ->
         exists ns' m', Enters (startcbs (XParallel bs) p ctx) ns ns' (is_done st) xcbs /\
@@ -1419,7 +1486,7 @@ Section Sim.
                        StartRes ns ns' g g' pend (svc_ids st) p (napis (XParallel bs)) /\
                        act N0 ns' st (XParallel bs) p ctx.
   Proof.
-    intros f IHf bs p ctx cid xcbs t2 g st g' ns m pend H Hf Hw Hnp HP HT Ht2 Hnt2 Hx2 Hinv Hgr Hfr Hctx Hlt Hm Hin HO.
+    intros f IHf bs p ctx cid xcbs t2 g st g' ns m pend H Hf Hw Hnp HP HT Ht2 Hnt2 Hx2 Hinv Hgr Hctx Hlt Hm Hin HO.
     pose proof (frag_par _ Hf) as [Hne Hfb]. pose proof Hw as Hwall.
     rewrite nplaces_par, ntrans_par, napis_par in *. unfold in_t, in_p in *. rewrite ?nplaces_par, ?ntrans_par in *.
     cbn [xplace] in Hx2. cbn [entries] in Hin.
@@ -1437,7 +1504,7 @@ Section Sim.
     assert (Hxs : forall k b, nth_error bs k = Some b -> In (xplace b (bpos bs q0 k)) (preN N0 (pt p))).
     { intros k b Hb. rewrite Hpre. apply in_cat_of. exists k, b. split; [exact Hb|left; reflexivity]. }
     destruct (start_list_case f ltac:(intros f0 Hf0; apply IHf; lia) bs q0 ctx cid (pt p) true g sts g1 ns m pend E1 Hfb Hwl
-                              ltac:(lia) ltac:(lia) ltac:(lia) ltac:(lia) Hxs Hinv Hgr ltac:(intros k Hk; apply Hfr; lia) Hctx
+                              ltac:(lia) ltac:(lia) ltac:(lia) ltac:(lia) Hxs Hinv Hgr Hctx
                               ltac:(lia) Hm ltac:(intros x Hx; apply Hin; lia) Houtl ltac:(intro HH; discriminate HH))
       as (ns' & m' & Hen & Mk & Ai & Ao & Hres & Hact).
     assert (Hnil : is_nil bs = false) by (destruct bs; [congruence|reflexivity]).
@@ -1502,31 +1569,32 @@ Section Sim.
   (* ---- the start of a Condition: the callback decides, puts the token on the decision place and
           evaluates the net from inside; there the first transition of the chosen branch fires,
           the branch starts, and nothing else can fire ---- *)
-  (* the chosen block of a Condition is complete: its second transition fires *)
-  Lemma cond_exit : forall B cb sb PL PH xcbs ctx nsa m m',
+  (* the block of a Condition or of a loop is complete: the transition that follows it fires,
+     its token goes to the place [x] of the enclosing component *)
+  Lemma block_exit : forall B cb sb x PL PH xcbs ctx nsa m m',
       frag_block B = true -> wired_block (wired N0) N0 ctx [] B cb ->
-      PL + 4 <= pp cb -> pp cb + nplaces_l B <= PH -> PH <= nP -> sb < nT ->
-      preN N0 sb = [xplace_b B cb] -> postN N0 sb = [PL + 3] -> cbsN N0 sb = xcbs -> no_parloop xcbs = true ->
+      PL + 4 <= pp cb -> pp cb + nplaces_l B <= PH -> PH <= nP -> sb < nT -> PL <= x < PL + 4 ->
+      preN N0 sb = [xplace_b B cb] -> postN N0 sb = [x] -> cbsN N0 sb = xcbs -> no_parloop xcbs = true ->
       Hout (pp cb) (pp cb + nplaces_l B) (pt cb) (pt cb + ntrans_b B) sb m ->
       (forall q, PL <= q < PH -> ~ in_pb B cb q -> cnt m q = 0) ->
       Inv nsa -> Marks nsa m' ->
       agrees_in (pp cb) (pp cb + nplaces_l B) m' [xplace_b B cb] ->
       agrees_out (pp cb) (pp cb + nplaces_l B) m m' ->
-      exists trs, let ns5 := fire_ns trs nsa in let m5 := (PL + 3) :: outside PL PH m' in
+      exists trs, let ns5 := fire_ns trs nsa in let m5 := x :: outside PL PH m' in
         (forall K, MS (nsa, [] :: K) (ns5, xcbs :: K)) /\ Marks ns5 m5 /\ Inv ns5 /\
-        agrees_in PL PH m5 [PL + 3] /\ agrees_out PL PH m m5.
+        agrees_in PL PH m5 [x] /\ agrees_out PL PH m m5.
   Proof.
-    intros B cb sb PL PH xcbs ctx nsa m m' HfB WB R1 R2 HP HsT Psb Qsb Csb Hnp HoutB Hz Inva Mka Aia Aoa.
+    intros B cb sb x PL PH xcbs ctx nsa m m' HfB WB R1 R2 HP HsT Hx Psb Qsb Csb Hnp HoutB Hz Inva Mka Aia Aoa.
     destruct (trans_exists sb HsT) as [trs Htrs]. exists trs. cbv zeta.
     rewrite (nth_error_preN _ _ Htrs) in Psb. rewrite (nth_error_postN _ _ Htrs) in Qsb.
-    set (m'' := (PL + 3) :: outside PL PH m').
+    set (m'' := x :: outside PL PH m').
     pose proof (xplace_range_b B HfB cb) as XB.
     assert (Hm'in : forall q, PL <= q < PH -> cnt m' q = cnt [xplace_b B cb] q).
     { intros q Hq. destruct (inb (pp cb) (pp cb + nplaces_l B) q) eqn:E.
       - apply inb_spec in E. apply Aia. exact E.
       - apply not_true_iff_false in E. rewrite inb_spec in E. rewrite (Aoa q E), (Hz q Hq E). cnt_cases. }
     destruct (Marks_fire nsa m' trs m'' Mka) as [Mkf Hlenf].
-    { intros x Hx. rewrite Qsb in Hx. destruct Hx as [<-|[]]. rewrite (iv_npl _ Inva). unfold nP in HP. lia. }
+    { intros x0 Hx0. rewrite Qsb in Hx0. destruct Hx0 as [<-|[]]. rewrite (iv_npl _ Inva). unfold nP in HP. lia. }
     { intro q. rewrite Psb. destruct (Nat.eq_dec q (xplace_b B cb)) as [->|Hne].
       - rewrite (Aia _ XB). cnt_cases.
       - cnt_cases. }
@@ -1546,30 +1614,57 @@ Section Sim.
     destruct (inb PL PH q) eqn:E; [apply inb_spec in E; lia|rewrite (Aoa q ltac:(lia)); cnt_cases].
   Qed.
 
-  Lemma start_cond_branch : forall f, (forall f0, f0 < S f -> StartOK f0) ->
-      forall e (b : bool) B cb fb sb PL PH TL TH AL AH ctx cid xcbs t2 q' g g1 r g' ns m pend,
-        let pb := if b then PL else PL + 1 in
+  Lemma cond_exit : forall B cb sb PL PH xcbs ctx nsa m m',
+      frag_block B = true -> wired_block (wired N0) N0 ctx [] B cb ->
+      PL + 4 <= pp cb -> pp cb + nplaces_l B <= PH -> PH <= nP -> sb < nT ->
+      preN N0 sb = [xplace_b B cb] -> postN N0 sb = [PL + 3] -> cbsN N0 sb = xcbs -> no_parloop xcbs = true ->
+      Hout (pp cb) (pp cb + nplaces_l B) (pt cb) (pt cb + ntrans_b B) sb m ->
+      (forall q, PL <= q < PH -> ~ in_pb B cb q -> cnt m q = 0) ->
+      Inv nsa -> Marks nsa m' ->
+      agrees_in (pp cb) (pp cb + nplaces_l B) m' [xplace_b B cb] ->
+      agrees_out (pp cb) (pp cb + nplaces_l B) m m' ->
+      exists trs, let ns5 := fire_ns trs nsa in let m5 := (PL + 3) :: outside PL PH m' in
+        (forall K, MS (nsa, [] :: K) (ns5, xcbs :: K)) /\ Marks ns5 m5 /\ Inv ns5 /\
+        agrees_in PL PH m5 [PL + 3] /\ agrees_out PL PH m m5.
+  Proof.
+    intros B cb sb PL PH xcbs ctx nsa m m' HfB WB R1 R2 HP HsT Psb Qsb Csb Hnp HoutB Hz Inva Mka Aia Aoa.
+    apply (block_exit B cb sb (PL + 3) PL PH xcbs ctx nsa m m'); try assumption. lia.
+  Qed.
+
+  Lemma Marks_has_place : forall ns m q, Inv ns -> Marks ns m -> q < nP -> has_place ns q = true.
+  Proof.
+    intros ns m q Hi Hm Hq. unfold has_place. destruct (proj1 Hm q) as [k0 Hk0]; [rewrite (iv_npl _ Hi); exact Hq|].
+    rewrite Hk0. reflexivity.
+  Qed.
+
+  Lemma start_branch : forall f, (forall f0, f0 < S f -> StartOK f0) ->
+      forall e cbk ep pb xs scbs B cb fb sb PL PH TL TH AL AH ctx cid t2 q' g g1 r g' ns m pend,
+        PL <= ep < PL + 3 -> PL <= pb < PL + 3 -> ep <> pb -> PL <= xs < PL + 4 ->
         frag_block B = true -> wired_block (wired N0) N0 ctx [] B cb ->
         PL + 4 <= pp cb -> pp cb + nplaces_l B <= PH -> TL + 3 <= pt cb -> pt cb + ntrans_b B <= TH ->
         AL <= pa cb -> pa cb + napis_l B <= AH ->
         TL <= fb < TL + 2 -> TL + 2 <= sb < TH -> ~ in_tb B cb sb ->
-        preN N0 fb = [PL + 2; pb] -> postN N0 fb = entries_b B cb -> cbsN N0 fb = startcbs_b B cb ctx ->
-        preN N0 sb = [xplace_b B cb] -> postN N0 sb = [PL + 3] -> cbsN N0 sb = xcbs -> no_parloop xcbs = true ->
+        preN N0 fb = [ep; pb] -> postN N0 fb = entries_b B cb -> cbsN N0 fb = startcbs_b B cb ctx ->
+        preN N0 sb = [xplace_b B cb] -> postN N0 sb = [xs] -> cbsN N0 sb = scbs -> no_parloop scbs = true ->
         (forall j, TL <= j < TH -> ~ in_tb B cb j -> j <> sb -> j <> fb ->
-                   exists q, In q (preN N0 j) /\ PL <= q < PH /\ ~ in_pb B cb q /\ q <> pb /\ q <> PL + 2) ->
+                   exists q, In q (preN N0 j) /\ PL <= q < PH /\ ~ in_pb B cb q /\ q <> pb /\ q <> ep) ->
         PH <= nP -> TH <= nT -> t2 < nT -> ~ (TL <= t2 < TH) -> In (PL + 3) (preN N0 t2) ->
         Inv ns -> GR g ns pend ->
-        (forall k, AL <= k < AH -> nth_error (ns_apis ns) k = nth_error (ns_apis N0) k) ->
         ctx_is ns ctx cid -> ctx < AL ->
-        Marks ns m -> (forall q, PL <= q < PH -> cnt m q = cnt [PL + 2] q) ->
+        Marks ns m -> (forall q, PL <= q < PH -> cnt m q = cnt [ep] q) ->
         Hout PL PH TL TH t2 m ->
-        decide expected_ops orc e (g_q g) = Ok (b, q') -> g_q g1 = q' ->
+        (forall ac s', nth_error (ns_apis ns) ctx = Some ac ->
+                       EvalTo tasks env (placed pb (cond_pre e (ident_nat (a_uuid ac)) q' ns)) s' -> RunCb tasks env cbk ns s') ->
+        g_q g1 = q' ->
         g_log g1 = rev (map (fun v => EQuery v cid) (expr_vars e)) ++ g_log g -> g_same g g1 ->
         run_block orc imm f cid [] B 0 g1 = Ok (r, g') ->
         exists ns' m',
-          Enters [CbCond e PL (PL + 1) ctx] ns ns' (is_none r) xcbs /\
+          match r with
+          | Some _ => Starts [cbk] ns ns'
+          | None => exists k, forall rest K, MS (ns, (cbk :: rest) :: K) (ns', scbs :: Unw k (rest :: K))
+          end /\
           Marks ns' m' /\
-          agrees_in PL PH m' (match r with None => [PL + 3] | Some (j, st0) => ml_block B cb j st0 end) /\
+          agrees_in PL PH m' (match r with None => [xs] | Some (j, st0) => ml_block B cb j st0 end) /\
           agrees_out PL PH m m' /\
           Inv ns' /\ GR g' ns' (pend ++ ids_opt r) /\
           (forall k, ~ (AL <= k < AH) -> nth_error (ns_apis ns') k = nth_error (ns_apis ns) k) /\
@@ -1578,14 +1673,13 @@ Section Sim.
                      Forall (fun kv => exists i, fst kv = ITest i /\ ns_sid ns <= i) d) /\
           actb ns' B cb ctx r.
   Proof.
-    intros f IHf e b B cb fb sb PL PH TL TH AL AH ctx cid xcbs t2 q' g g1 r g' ns m pend pb
+    intros f IHf e cbk ep pb xs scbs B cb fb sb PL PH TL TH AL AH ctx cid t2 q' g g1 r g' ns m pend Hep Hpb Hepb Hxs
            HfB WB R1 R2 R3 R4 R5 R6 Hfb Hsb Hnsb Pfb Qfb Cfb Psb Qsb Csb Hnp Hoth HP HT Ht2 Hnt2 Hx2
-           Hinv Hgr Hfr Hctx Hlt Hm Hin HO Hdec Hq1 Hlog1 (T1 & T2 & T3 & T4 & T5 & T6 & T7) E2.
-    assert (Hpb : PL <= pb < PL + 2) by (unfold pb; destruct b; lia).
+           Hinv Hgr Hctx Hlt Hm Hin HO Hopen Hq1 Hlog1 (T1 & T2 & T3 & T4 & T5 & T6 & T7) E2.
     pose proof Hctx as (ac & Hac & Huc).
     (* the state in which the nested evaluation starts *)
     set (s1 := cond_pre e (ident_nat (a_uuid ac)) q' ns).
-    assert (Inv1 : Inv s1) by (destruct Hinv as [I1 I2 I3 I4 I5 I6 I7 I8 I9 I10]; constructor; assumption).
+    assert (Inv1 : Inv s1) by (destruct Hinv as [I1 I2 I3 I4 I5 I6 I7 I8 I9 I10 I11]; constructor; assumption).
     assert (Gr1 : GR g1 s1 pend).
     { destruct Hgr as [G1 G2 G3 G4 G5 G6 G7 G8 G9 G10]. constructor.
       - change (ns_tid s1) with (ns_tid ns). congruence.
@@ -1605,18 +1699,12 @@ Section Sim.
     assert (Mk2 : Marks (placed pb s1) (pb :: m)) by (apply Marks_placed; assumption).
     set (s2 := placed pb s1) in *.
     assert (Inv2 : Inv s2).
-    { destruct Inv1 as [I1 I2 I3 I4 I5 I6 I7 I8 I9 I10]. constructor; try assumption.
+    { destruct Inv1 as [I1 I2 I3 I4 I5 I6 I7 I8 I9 I10 I11]. constructor; try assumption.
       unfold s2, placed. cbn [ns_places set]. rewrite upd_length. exact I8. }
     assert (Gr2 : GR g1 s2 pend) by (destruct Gr1; constructor; assumption).
     (* the callback opens an evaluation in s2 *)
-    assert (Hpush : forall rest K, MS (ns, (CbCond e PL (PL + 1) ctx :: rest) :: K) (s2, [] :: rest :: K)).
-    { intros rest K. apply MS_push; [reflexivity|]. intros s' Hev.
-      apply (RunCb_Cond tasks env e PL (PL + 1) ctx ns ac b q' s' Hac).
-      - rewrite Horc, (gr_q _ _ _ Hgr). exact Hdec.
-      - rewrite (gr_aw _ _ _ Hgr). apply no_setplace_awaited.
-      - fold pb. unfold has_place. destruct (proj1 Hm pb) as [k0 Hk0]; [change (ns_places s1) with (ns_places ns) in Hlenp; exact Hlenp|].
-        rewrite Hk0. reflexivity.
-      - fold pb. exact Hev. }
+    assert (Hpush : forall rest K, MS (ns, (cbk :: rest) :: K) (s2, [] :: rest :: K)).
+    { intros rest K. apply MS_push; [reflexivity|]. intros s' Hev. apply (Hopen ac s' Hac Hev). }
     (* the first transition of the chosen branch *)
     assert (HfbT : fb < nT) by lia.
     destruct (trans_exists fb HfbT) as [trf Htrf].
@@ -1663,7 +1751,7 @@ Section Sim.
         + destruct (HO j Hj ltac:(lia) Hn2) as (q & Q1 & Q2 & Q3). exists q. split; [exact Q1|]. split; [lia|].
           apply not_in_cnt. rewrite (Hm3_out q Q2). apply not_in_cnt. exact Q3.
       - destruct (Nat.eq_dec j fb) as [->|Hnf].
-        + exists (PL + 2). rewrite (nth_error_preN _ _ Htrf), Pfb. split; [left; reflexivity|]. split; [lia|].
+        + exists ep. rewrite (nth_error_preN _ _ Htrf), Pfb. split; [left; reflexivity|]. split; [lia|].
           apply not_in_cnt. apply Hz3; [lia|unfold in_pb; lia].
         + destruct (Hoth j ltac:(lia) ltac:(unfold in_tb; lia) Hne Hnf) as (q & Q1 & Q2 & Q3 & Q4 & Q5).
           exists q. split; [exact Q1|]. unfold in_pb in Q3. split; [lia|]. apply not_in_cnt. apply Hz3; assumption.
@@ -1675,9 +1763,9 @@ Section Sim.
     assert (Hfire : forall K, MS (s2, [] :: K) (nsf, startcbs s0 p0' ctx :: K)).
     { intro K. apply (MS_fire1 s2 (pb :: m) fb trf _ K Inv2 Mk2 HfbT Htrf).
       - intros q Hq. rewrite Pfb in Hq. destruct Hq as [<-|[<-|[]]]; [right|left; reflexivity].
-        apply cnt_pos_in. rewrite (Hin (PL + 2) ltac:(lia)). cnt_cases.
+        apply cnt_pos_in. rewrite (Hin ep ltac:(lia)). cnt_cases.
       - intros j Hj Hne.
-        assert (Hpbm : forall q, PL <= q < PH -> q <> pb -> q <> PL + 2 -> ~ In q (pb :: m)).
+        assert (Hpbm : forall q, PL <= q < PH -> q <> pb -> q <> ep -> ~ In q (pb :: m)).
         { intros q Hq N1 N2 [E0|Hi]; [congruence|]. apply cnt_pos_in in Hi. rewrite (Hin q Hq) in Hi. revert Hi. cnt_cases. }
         destruct (Nat.lt_ge_cases j TL) as [A|A]; [|destruct (Nat.lt_ge_cases j TH) as [B0|B0]].
         + destruct (Nat.eq_dec j t2) as [->|Hn2].
@@ -1701,13 +1789,10 @@ Section Sim.
       - exact Cfb.
       - apply no_parloop_startcbs. }
     (* the branch starts *)
-    assert (Hfrf : fresh_from nsf B cb 0).
-    { intros k s1' a Hk Hnk Ha. change (ns_apis nsf) with (ns_apis ns).
-      pose proof (spos_range B cb k s1' Hnk) as Rk. apply Hfr. lia. }
     assert (Hctxf : ctx_is nsf ctx cid) by (exists ac; split; assumption).
     destruct f as [|f']; [discriminate E2|].
     destruct (start_block_case f' ltac:(intros f0 Hlef0; apply IHf; lia) B cb ctx cid [] sb 0 s0 g1 r g' nsf m3 pend E2 Hn0 HfB WB eq_refl
-                               ltac:(lia) ltac:(lia) ltac:(lia) Hnsb ltac:(rewrite Psb; left; reflexivity) Invf Grf Hfrf Hctxf
+                               ltac:(lia) ltac:(lia) ltac:(lia) Hnsb ltac:(rewrite Psb; left; reflexivity) Invf Grf Hctxf
                                ltac:(lia) Mkf)
       as (ns4 & m4 & Hen4 & Mk4 & Ai4 & Ao4 & Hres4 & Hact4).
     { intros q Hq. fold p0'. apply Hm3_in. unfold in_pb in Hq. lia. }
@@ -1732,7 +1817,7 @@ Section Sim.
       split; [rewrite Aw4, T7; reflexivity|]. split; [rewrite <- T2; exact Sid4|].
       split; [exact Di4|exact Hact4].
     - (* the branch is complete: its second transition fires *)
-      destruct (cond_exit B cb sb PL PH xcbs ctx ns4 m3 m4 HfB WB R1 R2 HP ltac:(lia) Psb Qsb Csb Hnp HoutB Hz3 Inv4 Mk4 Ai4 Ao4)
+      destruct (block_exit B cb sb xs PL PH scbs ctx ns4 m3 m4 HfB WB R1 R2 HP ltac:(lia) Hxs Psb Qsb Csb Hnp HoutB Hz3 Inv4 Mk4 Ai4 Ao4)
         as (trs & Hms & Mk5 & Inv5 & Ai5 & Ao5). cbv zeta in Hms, Mk5, Inv5, Ai5, Ao5.
       eexists. eexists. split.
       { destruct Hen4 as [k Hk]. exists (S k). intros rest K. cbn [app]. eapply MS_trans; [apply Hpush|]. eapply MS_trans; [apply Hfire|].
@@ -1744,6 +1829,56 @@ Section Sim.
       split; [intros k Hk; change (ns_apis (fire_ns trs ns4)) with (ns_apis ns4); rewrite Ap4 by lia; reflexivity|].
       split; [rewrite Aw4, T7; reflexivity|]. split; [rewrite <- T2; exact Sid4|].
       split; [exact Di4|exact I].
+  Qed.
+
+  Lemma start_cond_branch : forall f, (forall f0, f0 < S f -> StartOK f0) ->
+      forall e (b : bool) B cb fb sb PL PH TL TH AL AH ctx cid xcbs t2 q' g g1 r g' ns m pend,
+        let pb := if b then PL else PL + 1 in
+        frag_block B = true -> wired_block (wired N0) N0 ctx [] B cb ->
+        PL + 4 <= pp cb -> pp cb + nplaces_l B <= PH -> TL + 3 <= pt cb -> pt cb + ntrans_b B <= TH ->
+        AL <= pa cb -> pa cb + napis_l B <= AH ->
+        TL <= fb < TL + 2 -> TL + 2 <= sb < TH -> ~ in_tb B cb sb ->
+        preN N0 fb = [PL + 2; pb] -> postN N0 fb = entries_b B cb -> cbsN N0 fb = startcbs_b B cb ctx ->
+        preN N0 sb = [xplace_b B cb] -> postN N0 sb = [PL + 3] -> cbsN N0 sb = xcbs -> no_parloop xcbs = true ->
+        (forall j, TL <= j < TH -> ~ in_tb B cb j -> j <> sb -> j <> fb ->
+                   exists q, In q (preN N0 j) /\ PL <= q < PH /\ ~ in_pb B cb q /\ q <> pb /\ q <> PL + 2) ->
+        PH <= nP -> TH <= nT -> t2 < nT -> ~ (TL <= t2 < TH) -> In (PL + 3) (preN N0 t2) ->
+        Inv ns -> GR g ns pend ->
+        ctx_is ns ctx cid -> ctx < AL ->
+        Marks ns m -> (forall q, PL <= q < PH -> cnt m q = cnt [PL + 2] q) ->
+        Hout PL PH TL TH t2 m ->
+        decide expected_ops orc e (g_q g) = Ok (b, q') -> g_q g1 = q' ->
+        g_log g1 = rev (map (fun v => EQuery v cid) (expr_vars e)) ++ g_log g -> g_same g g1 ->
+        run_block orc imm f cid [] B 0 g1 = Ok (r, g') ->
+        exists ns' m',
+          Enters [CbCond e PL (PL + 1) ctx] ns ns' (is_none r) xcbs /\
+          Marks ns' m' /\
+          agrees_in PL PH m' (match r with None => [PL + 3] | Some (j, st0) => ml_block B cb j st0 end) /\
+          agrees_out PL PH m m' /\
+          Inv ns' /\ GR g' ns' (pend ++ ids_opt r) /\
+          (forall k, ~ (AL <= k < AH) -> nth_error (ns_apis ns') k = nth_error (ns_apis ns) k) /\
+          g_awaited g' = g_awaited g ++ ids_opt r /\ g_sid g <= g_sid g' /\
+          (exists d, ns_place_dict ns' = d ++ ns_place_dict ns /\
+                     Forall (fun kv => exists i, fst kv = ITest i /\ ns_sid ns <= i) d) /\
+          actb ns' B cb ctx r.
+  Proof.
+    intros f IHf e b B cb fb sb PL PH TL TH AL AH ctx cid xcbs t2 q' g g1 r g' ns m pend pb
+           HfB WB R1 R2 R3 R4 R5 R6 Hfb Hsb Hnsb Pfb Qfb Cfb Psb Qsb Csb Hnp Hoth HP HT Ht2 Hnt2 Hx2
+           Hinv Hgr Hctx Hlt Hm Hin HO Hdec Hq1 Hlog1 Hsame E2.
+    assert (Hpb : PL <= pb < PL + 2) by (unfold pb; destruct b; lia).
+    assert (Hopen : forall ac s', nth_error (ns_apis ns) ctx = Some ac ->
+                       EvalTo tasks env (placed pb (cond_pre e (ident_nat (a_uuid ac)) q' ns)) s' ->
+                       RunCb tasks env (CbCond e PL (PL + 1) ctx) ns s').
+    { intros ac s' Hac Hev. apply (RunCb_Cond tasks env e PL (PL + 1) ctx ns ac b q' s' Hac).
+      - rewrite Horc, (gr_q _ _ _ Hgr). exact Hdec.
+      - rewrite (gr_aw _ _ _ Hgr). apply no_setplace_awaited.
+      - fold pb. apply (Marks_has_place ns m pb Hinv Hm). lia.
+      - fold pb. exact Hev. }
+    destruct (start_branch f IHf e (CbCond e PL (PL + 1) ctx) (PL + 2) pb (PL + 3) xcbs B cb fb sb PL PH TL TH AL AH ctx cid t2 q' g g1 r g' ns m pend
+                           ltac:(lia) ltac:(lia) ltac:(lia) ltac:(lia) HfB WB R1 R2 R3 R4 R5 R6 Hfb Hsb Hnsb Pfb Qfb Cfb Psb Qsb Csb Hnp Hoth
+                           HP HT Ht2 Hnt2 Hx2 Hinv Hgr Hctx Hlt Hm Hin HO Hopen Hq1 Hlog1 Hsame E2)
+      as (ns' & m' & Hen & Rest).
+    exists ns', m'. split; [|exact Rest]. destruct r as [[j st0]|]; exact Hen.
   Qed.
 
   (* a Condition without a Failed block whose test fails: the first-failed transition leads
@@ -1770,7 +1905,7 @@ Section Sim.
     set (PL := pp p) in *. set (PH := pp p + (4 + nplaces_l P)) in *.
     pose proof Hctx as (ac & Hac & Huc).
     set (s1 := cond_pre e (ident_nat (a_uuid ac)) q' ns).
-    assert (Inv1 : Inv s1) by (destruct Hinv as [I1 I2 I3 I4 I5 I6 I7 I8 I9 I10]; constructor; assumption).
+    assert (Inv1 : Inv s1) by (destruct Hinv as [I1 I2 I3 I4 I5 I6 I7 I8 I9 I10 I11]; constructor; assumption).
     assert (Gr1 : GR g1 s1 pend).
     { destruct Hgr as [G1 G2 G3 G4 G5 G6 G7 G8 G9 G10]. constructor.
       - change (ns_tid s1) with (ns_tid ns). congruence.
@@ -1791,7 +1926,7 @@ Section Sim.
     assert (Mk2 : Marks (placed pb s1) (pb :: m)) by (apply Marks_placed; assumption).
     set (s2 := placed pb s1) in *.
     assert (Inv2 : Inv s2).
-    { destruct Inv1 as [I1 I2 I3 I4 I5 I6 I7 I8 I9 I10]. constructor; try assumption.
+    { destruct Inv1 as [I1 I2 I3 I4 I5 I6 I7 I8 I9 I10 I11]. constructor; try assumption.
       unfold s2, placed. cbn [ns_places set]. rewrite upd_length. exact I8. }
     assert (Gr2 : GR g1 s2 pend) by (destruct Gr1; constructor; assumption).
     assert (Hpush : forall rest K, MS (ns, (CbCond e PL (PL + 1) ctx :: rest) :: K) (s2, [] :: rest :: K)).
@@ -1854,13 +1989,119 @@ Section Sim.
     split; [exact Invf|]. split; [exact Grf|]. repeat split; reflexivity.
   Qed.
 
+  Lemma loop_else : forall e P p ctx cid xcbs t2 q' g g1 ns m pend,
+      frag_block P = true -> wired N0 (XWhile e P) p ctx xcbs -> no_parloop xcbs = true ->
+      pp p + (4 + nplaces_l P) <= nP -> pt p + (3 + ntrans_b P) <= nT ->
+      t2 < nT -> ~ (pt p <= t2 < pt p + (3 + ntrans_b P)) -> In (pp p + 3) (preN N0 t2) ->
+      Inv ns -> GR g ns pend -> ctx_is ns ctx cid ->
+      Marks ns m -> (forall q, pp p <= q < pp p + (4 + nplaces_l P) -> cnt m q = cnt [pp p] q) ->
+      Hout (pp p) (pp p + (4 + nplaces_l P)) (pt p) (pt p + (3 + ntrans_b P)) t2 m ->
+      decide expected_ops orc e (g_q g) = Ok (false, q') -> g_q g1 = q' ->
+      g_log g1 = rev (map (fun v => EQuery v cid) (expr_vars e)) ++ g_log g -> g_same g g1 ->
+      exists ns' m',
+        Enters [CbWhile e (pp p + 1) (pp p + 2) ctx] ns ns' true xcbs /\ Marks ns' m' /\
+        agrees_in (pp p) (pp p + (4 + nplaces_l P)) m' [pp p + 3] /\
+        agrees_out (pp p) (pp p + (4 + nplaces_l P)) m m' /\
+        Inv ns' /\ GR g1 ns' pend /\ ns_apis ns' = ns_apis ns /\ ns_place_dict ns' = ns_place_dict ns /\
+        ns_sid ns' = ns_sid ns.
+  Proof.
+    intros e P p ctx cid xcbs t2 q' g g1 ns m pend HfP Hw Hnp HP HT Ht2 Hnt2 Hx2 Hinv Hgr Hctx Hm Hin HO Hdec Hq1 Hlog1
+           (T1 & T2 & T3 & T4 & T5 & T6 & T7).
+    cbn [wired] in Hw. destruct Hw as (W1 & W2 & W3 & W4 & W5 & W6 & W7 & W8 & W9 & WP).
+    set (PL := pp p) in *. set (PH := pp p + (4 + nplaces_l P)) in *.
+    pose proof Hctx as (ac & Hac & Huc).
+    set (s1 := cond_pre e (ident_nat (a_uuid ac)) q' ns).
+    assert (Inv1 : Inv s1) by (destruct Hinv as [I1 I2 I3 I4 I5 I6 I7 I8 I9 I10 I11]; constructor; assumption).
+    assert (Gr1 : GR g1 s1 pend).
+    { destruct Hgr as [G1 G2 G3 G4 G5 G6 G7 G8 G9 G10]. constructor.
+      - change (ns_tid s1) with (ns_tid ns). congruence.
+      - change (ns_sid s1) with (ns_sid ns). congruence.
+      - change (ns_nss s1) with (ns_nss ns). congruence.
+      - change (ns_running s1) with (ns_running ns). congruence.
+      - change (ns_log s1) with (rev (map (fun v => EQuery v (ident_nat (a_uuid ac))) (expr_vars e)) ++ ns_log ns).
+        rewrite Hlog1, G5, Huc. reflexivity.
+      - change (ns_ls s1) with (ns_ls ns). congruence.
+      - change (ns_obs s1) with (ns_obs ns). congruence.
+      - change (ns_awaited s1) with (ns_awaited ns). congruence.
+      - change (ns_pending s1) with (ns_pending ns). exact G9.
+      - change (ns_q s1) with q'. congruence. }
+    set (pb := PL + 2).
+    assert (Hlenp : pb < List.length (ns_places s1)).
+    { change (ns_places s1) with (ns_places ns). rewrite (iv_npl _ Hinv). fold nP. unfold pb, PL. lia. }
+    assert (Mk1 : Marks s1 m) by exact Hm.
+    assert (Mk2 : Marks (placed pb s1) (pb :: m)) by (apply Marks_placed; assumption).
+    set (s2 := placed pb s1) in *.
+    assert (Inv2 : Inv s2).
+    { destruct Inv1 as [I1 I2 I3 I4 I5 I6 I7 I8 I9 I10 I11]. constructor; try assumption.
+      unfold s2, placed. cbn [ns_places set]. rewrite upd_length. exact I8. }
+    assert (Gr2 : GR g1 s2 pend) by (destruct Gr1; constructor; assumption).
+    assert (Hpush : forall rest K, MS (ns, (CbWhile e (PL + 1) (PL + 2) ctx :: rest) :: K) (s2, [] :: rest :: K)).
+    { intros rest K. apply MS_push; [reflexivity|]. intros s' Hev.
+      apply (RunCb_While tasks env e (PL + 1) (PL + 2) ctx ns ac false q' s' Hac).
+      - rewrite Horc, (gr_q _ _ _ Hgr). exact Hdec.
+      - rewrite (gr_aw _ _ _ Hgr). apply no_setplace_awaited.
+      - fold pb. unfold has_place. destruct (proj1 Hm pb) as [k0 Hk0]; [change (ns_places s1) with (ns_places ns) in Hlenp; exact Hlenp|].
+        rewrite Hk0. reflexivity.
+      - fold pb. exact Hev. }
+    (* the condition-failed transition *)
+    assert (HffT : pt p + 1 < nT) by lia.
+    destruct (trans_exists (pt p + 1) HffT) as [trf Htrf].
+    rewrite (nth_error_preN _ _ Htrf) in W4. rewrite (nth_error_postN _ _ Htrf) in W5.
+    set (nsf := fire_ns trf s2).
+    pose proof (fire_len s2 (pb :: m) trf Mk2) as Hlenf. fold nsf in Hlenf.
+    pose proof (Inv_fire s2 trf Inv2 Hlenf) as Invf. pose proof (GR_fire _ _ _ trf Gr2) as Grf. fold nsf in Invf, Grf.
+    set (m3 := (PL + 3) :: outside PL PH m).
+    destruct (Marks_fire s2 (pb :: m) trf m3 Mk2) as [Mkf _].
+    { intros x Hx. rewrite W5 in Hx. destruct Hx as [<-|[]]. rewrite (iv_npl _ Inv2). fold nP. unfold PL. lia. }
+    { intro q. rewrite W4. fold PL. fold pb. rewrite !cnt_cons, cnt_nil.
+      destruct (Nat.lt_ge_cases q PL) as [A|A]; [|destruct (Nat.lt_ge_cases q PH) as [B0|B0]].
+      - unfold pb. cnt_cases.
+      - rewrite (Hin q ltac:(lia)). unfold pb. cnt_cases.
+      - unfold pb, PH, PL in *. cnt_cases. }
+    { intro q. rewrite W4, W5. fold PL. fold pb. unfold m3. rewrite ?cnt_cons, ?cnt_outside, ?cnt_nil.
+      destruct (inb PL PH q) eqn:Eq.
+      - apply inb_spec in Eq. rewrite (Hin q Eq). unfold pb. cnt_cases.
+      - apply not_true_iff_false in Eq. rewrite inb_spec in Eq. unfold pb, PH, PL in *. cnt_cases. }
+    fold nsf in Mkf.
+    pose proof (xplace_range_b P HfP (cond_p p)) as XP. cbn [cond_p pp] in XP. fold PL in XP.
+    assert (Hpbm : forall q, PL <= q < PH -> q <> pb -> q <> PL -> ~ In q (pb :: m)).
+    { intros q Hq N1 N2 [E0|Hi]; [congruence|]. apply cnt_pos_in in Hi. rewrite (Hin q Hq) in Hi. revert Hi. cnt_cases. }
+    assert (Hfire : forall K, MS (s2, [] :: K) (nsf, xcbs :: K)).
+    { intro K. apply (MS_fire1 s2 (pb :: m) (pt p + 1) trf xcbs K Inv2 Mk2 HffT Htrf).
+      - intros q Hq. rewrite W4 in Hq. fold PL in Hq. fold pb in Hq. destruct Hq as [<-|[<-|[]]]; [right|left; reflexivity].
+        apply cnt_pos_in. rewrite (Hin PL ltac:(unfold PH, PL; lia)). cnt_cases.
+      - intros j Hj Hne.
+        destruct (Nat.lt_ge_cases j (pt p)) as [A|A]; [|destruct (Nat.lt_ge_cases j (pt p + (3 + ntrans_b P))) as [B0|B0]].
+        + destruct (Nat.eq_dec j t2) as [->|Hn2].
+          * exists (PL + 3). split; [exact Hx2|]. apply Hpbm; unfold pb, PH, PL; lia.
+          * destruct (HO j Hj ltac:(lia) Hn2) as (q & Q1 & Q2 & Q3). exists q. split; [exact Q1|].
+            intros [E0|Hi]; [unfold pb, PH, PL in *; lia|contradiction].
+        + destruct (Nat.eq_dec j (pt p)) as [->|N0']; [|destruct (Nat.eq_dec j (pt p + 2)) as [->|N2]].
+          * exists (PL + 1). rewrite W1. split; [right; left; reflexivity|]. apply Hpbm; unfold pb, PH, PL; lia.
+          * exists (xplace_b P (cond_p p)). rewrite W7. split; [left; reflexivity|]. apply Hpbm; unfold pb, PH; lia.
+          * destruct (exit_blocked_block N0 P (cond_p p) ctx [] HfP WP j ltac:(unfold in_tb; cbn [cond_p pt]; lia)) as (q & Q1 & Q2 & _).
+            exists q. split; [exact Q1|]. unfold in_pb in Q2. cbn [cond_p pp] in Q2. fold PL in Q2. apply Hpbm; unfold pb, PH; lia.
+        + destruct (Nat.eq_dec j t2) as [->|Hn2].
+          * exists (PL + 3). split; [exact Hx2|]. apply Hpbm; unfold pb, PH, PL; lia.
+          * destruct (HO j Hj ltac:(lia) Hn2) as (q & Q1 & Q2 & Q3). exists q. split; [exact Q1|].
+            intros [E0|Hi]; [unfold pb, PH, PL in *; lia|contradiction].
+      - exact W6.
+      - exact Hnp. }
+    exists nsf, m3. split.
+    { exists 0. intros rest K. cbn [app]. eapply MS_trans; [apply Hpush|]. apply Hfire. }
+    split; [exact Mkf|].
+    split; [intros q Hq; unfold m3; cnt_cases|].
+    split; [intros q Hq; unfold m3; cnt_cases|].
+    split; [exact Invf|]. split; [exact Grf|]. repeat split; reflexivity.
+  Qed.
+
   Lemma start_cond_case : forall f, (forall f0, f0 < S f -> StartOK f0) ->
       forall e P F p ctx cid xcbs t2 g st g' ns m pend,
         start_stmt orc imm (S f) cid [] (XCond e P F) g = Ok (st, g') ->
         frag (XCond e P F) = true -> wired N0 (XCond e P F) p ctx xcbs -> no_parloop xcbs = true ->
         pp p + nplaces (XCond e P F) <= nP -> pt p + ntrans (XCond e P F) <= nT ->
         t2 < nT -> ~ in_t (XCond e P F) p t2 -> In (xplace (XCond e P F) p) (preN N0 t2) ->
-        Inv ns -> GR g ns pend -> fresh_in ns p (napis (XCond e P F)) -> ctx_is ns ctx cid -> ctx < pa p ->
+        Inv ns -> GR g ns pend -> ctx_is ns ctx cid -> ctx < pa p ->
         Marks ns m -> (forall q, in_p (XCond e P F) p q -> cnt m q = cnt (entries (XCond e P F) p) q) ->
         Hout (pp p) (pp p + nplaces (XCond e P F)) (pt p) (pt p + ntrans (XCond e P F)) t2 m ->
         exists ns' m', Enters (startcbs (XCond e P F) p ctx) ns ns' (is_done st) xcbs /\
@@ -1869,7 +2110,7 @@ Section Sim.
                        StartRes ns ns' g g' pend (svc_ids st) p (napis (XCond e P F)) /\
                        act N0 ns' st (XCond e P F) p ctx.
   Proof.
-    intros f IHf e P F p ctx cid xcbs t2 g st g' ns m pend H Hf Hw Hnp HP HT Ht2 Hnt2 Hx2 Hinv Hgr Hfr Hctx Hlt Hm Hin HO.
+    intros f IHf e P F p ctx cid xcbs t2 g st g' ns m pend H Hf Hw Hnp HP HT Ht2 Hnt2 Hx2 Hinv Hgr Hctx Hlt Hm Hin HO.
     destruct (list_nil_dec F) as [->|HneF].
     { (* no Failed block *)
       pose proof (frag_cond0 _ _ Hf) as HfP. pose proof Hw as Hwall.
@@ -1966,16 +2207,129 @@ Section Sim.
       split; [exact Inv'|]. split; [exact Gr'|]. split; [exact Ap'|]. split; [exact Aw'|]. split; [exact Sid'|exact Di'].
   Qed.
 
+  (* ---- while loops: the test before iteration k.  The same statement serves the entry of the
+          loop (callback of the entering transition) and the end of an iteration (callback of the
+          iteration transition): the loop place holds the token, CbWhile is about to run ---- *)
+  Lemma loop_test_S : forall f cid ie e B k,
+      loop_test orc imm (S f) cid ie (XWhile e B) k =
+      (b <- decide_m orc e cid ;;
+       if b then
+         r <- run_block orc imm f cid ie B 0 ;;
+         match r with
+         | None => loop_test orc imm f cid ie (XWhile e B) (S k)
+         | Some (i, st) => ret (RLoop k i st)
+         end
+       else ret RDone).
+  Proof. reflexivity. Qed.
+
+  Definition LoopOK (f : nat) : Prop :=
+    forall e B p ctx cid xcbs t2 k g st g' ns m pend,
+      loop_test orc imm f cid [] (XWhile e B) k g = Ok (st, g') ->
+      frag (XWhile e B) = true -> wired N0 (XWhile e B) p ctx xcbs -> no_parloop xcbs = true ->
+      pp p + nplaces (XWhile e B) <= nP -> pt p + ntrans (XWhile e B) <= nT ->
+      t2 < nT -> ~ in_t (XWhile e B) p t2 -> In (xplace (XWhile e B) p) (preN N0 t2) ->
+      Inv ns -> GR g ns pend -> ctx_is ns ctx cid -> ctx < pa p ->
+      Marks ns m -> (forall q, in_p (XWhile e B) p q -> cnt m q = cnt (entries (XWhile e B) p) q) ->
+      Hout (pp p) (pp p + nplaces (XWhile e B)) (pt p) (pt p + ntrans (XWhile e B)) t2 m ->
+      exists ns' m', Enters (startcbs (XWhile e B) p ctx) ns ns' (is_done st) xcbs /\
+                     Marks ns' m' /\ agrees_in (pp p) (pp p + nplaces (XWhile e B)) m' (mlx st (XWhile e B) p) /\
+                     agrees_out (pp p) (pp p + nplaces (XWhile e B)) m m' /\
+                     StartRes ns ns' g g' pend (svc_ids st) p (napis (XWhile e B)) /\
+                     act N0 ns' st (XWhile e B) p ctx.
+
+  Lemma loop_case : forall f, (forall f0, f0 < f -> StartOK f0) -> LoopOK f.
+  Proof.
+    induction f as [|f IHf]; intros HS e B p ctx cid xcbs t2 k g st g' ns m pend
+                                    H Hf Hw Hnp HP HT Ht2 Hnt2 Hx2 Hinv Hgr Hctx Hlt Hm Hin HO; [discriminate H|].
+    pose proof (frag_while _ _ Hf) as HfB. pose proof Hw as Hwall. pose proof HO as HOall. pose proof Hx2 as Hx2all.
+    rewrite nplaces_while, ntrans_while, napis_while in *. unfold in_t, in_p in *. rewrite ?nplaces_while, ?ntrans_while in *.
+    cbn [xplace] in Hx2. cbn [entries] in Hin. cbn [startcbs].
+    cbn [wired] in Hw. destruct Hw as (W1 & W2 & W3 & W4 & W5 & W6 & W7 & W8 & W9 & WB).
+    rewrite loop_test_S in H. mstep as b g1 E1.
+    destruct (decide_m_spec _ _ _ _ _ E1) as (q' & Hdec & Hq1 & Hlog1 & Hsame).
+    pose proof (xplace_range_b B HfB (cond_p p)) as XB. cbn [cond_p pp] in XB.
+    set (CW := CbWhile e (pp p + 1) (pp p + 2) ctx) in *.
+    destruct b.
+    - (* the test passes: the body is entered *)
+      mstep as r g2 E2.
+      assert (Hopen : forall ac s', nth_error (ns_apis ns) ctx = Some ac ->
+                         EvalTo tasks env (placed (pp p + 1) (cond_pre e (ident_nat (a_uuid ac)) q' ns)) s' ->
+                         RunCb tasks env CW ns s').
+      { intros ac s' Hac Hev. apply (RunCb_While tasks env e (pp p + 1) (pp p + 2) ctx ns ac true q' s' Hac).
+        - rewrite Horc, (gr_q _ _ _ Hgr). exact Hdec.
+        - rewrite (gr_aw _ _ _ Hgr). apply no_setplace_awaited.
+        - apply (Marks_has_place ns m _ Hinv Hm). lia.
+        - exact Hev. }
+      destruct (start_branch f HS e CW (pp p) (pp p + 1) (pp p) [CW] B (cond_p p) (pt p) (pt p + 2)
+                             (pp p) (pp p + (4 + nplaces_l B)) (pt p) (pt p + (3 + ntrans_b B)) (pa p) (pa p + napis_l B)
+                             ctx cid t2 q' g g1 r g2 ns m pend
+                             ltac:(lia) ltac:(lia) ltac:(lia) ltac:(lia) HfB WB
+                             ltac:(cbn [cond_p pp]; lia) ltac:(cbn [cond_p pp]; lia) ltac:(cbn [cond_p pt]; lia)
+                             ltac:(cbn [cond_p pt]; lia) ltac:(cbn [cond_p pa]; lia) ltac:(cbn [cond_p pa]; lia)
+                             ltac:(lia) ltac:(lia) ltac:(unfold in_tb; cbn [cond_p pt]; lia) W1 W2 W3 W7 W8 W9 eq_refl)
+        as (ns' & m' & Hen & Mk & Ai & Ao & Inv' & Gr' & Ap' & Aw' & Sid' & Di' & Hab); try assumption.
+      { intros j Hj Hnj Hns Hnf. unfold in_tb in Hnj. cbn [cond_p pt] in Hnj.
+        assert (j = pt p + 1) by lia. subst j.
+        exists (pp p + 2). rewrite W4. split; [right; left; reflexivity|]. unfold in_pb. cbn [cond_p pp]. repeat split; lia. }
+      destruct r as [[j st0]|]; cbn [ids_opt actb] in *.
+      + (* the body waits *)
+        mstep. cbn [is_done mlx svc_ids Enters].
+        exists ns', m'. split; [exact Hen|]. split; [exact Mk|]. split; [rewrite ml_loop; exact Ai|]. split; [exact Ao|].
+        split; [|rewrite act_loop; exact Hab].
+        split; [exact Inv'|]. split; [exact Gr'|]. split; [exact Ap'|]. split; [exact Aw'|]. split; [exact Sid'|exact Di'].
+      + (* the body completed at once: next test, one evaluation deeper *)
+        rewrite app_nil_r in Gr', Aw'.
+        assert (Hctx' : ctx_is ns' ctx cid).
+        { destruct Hctx as (ac & Hac & Hu). exists ac. split; [|exact Hu]. rewrite Ap' by lia. exact Hac. }
+        assert (Ao' : agrees_out (pp p) (pp p + (4 + nplaces_l B)) m m') by exact Ao.
+        destruct (IHf ltac:(intros f0 Hf0; apply HS; lia) e B p ctx cid xcbs t2 (S k) g2 st g' ns' m' pend H Hf Hwall Hnp)
+          as (ns'' & m'' & Hen2 & Mk2 & Ai2 & Ao2 & Hres2 & Hact2);
+          rewrite ?nplaces_while, ?ntrans_while, ?napis_while; unfold in_t, in_p; rewrite ?nplaces_while, ?ntrans_while;
+          try assumption; try lia.
+        { exact (Hout_out _ _ _ _ _ _ _ HO Ao'). }
+        rewrite ?nplaces_while, ?napis_while in *. cbn [startcbs] in Hen2. fold CW in Hen2.
+        destruct Hen as [kk Hkk].
+        assert (Ao2' : agrees_out (pp p) (pp p + (4 + nplaces_l B)) m m'').
+        { intros q Hq. rewrite (Ao2 q Hq). apply Ao'. exact Hq. }
+        pose proof Hres2 as (Inv2 & _).
+        exists ns'', m''. split; [|split; [exact Mk2|split; [exact Ai2|split; [exact Ao2'|split; [|exact Hact2]]]]].
+        * destruct (is_done st) eqn:D; cbn [Enters] in *.
+          -- destruct Hen2 as [k2 Hk2]. exists (k2 + S kk). intros rest K. cbn [app]. eapply MS_trans; [apply Hkk|].
+             specialize (Hk2 [] (Unw kk (rest :: K))). cbn [app] in Hk2. rewrite Unw_nest in Hk2. exact Hk2.
+          -- intros rest K. cbn [app]. eapply MS_trans; [apply Hkk|].
+             eapply MS_trans; [specialize (Hen2 [] (Unw kk (rest :: K))); cbn [app] in Hen2; exact Hen2|].
+             change ([] :: Unw kk (rest :: K)) with (Unw (S kk) (rest :: K)).
+             apply MS_unwind; [exact Inv2|]. apply (dis_dead ns'' m'' Inv2 Mk2).
+             rewrite (mlx_nd _ _ _ D) in Ai2.
+             apply (stmt_dis (XWhile e B) p ctx xcbs t2 st ns'' m m'' Hf Hwall D Hx2all); rewrite ?nplaces_while, ?ntrans_while; assumption.
+        * assert (E0 : svc_ids st = [] ++ svc_ids st) by reflexivity. rewrite E0.
+          eapply (StartRes_trans ns ns' ns'' g g2 g' pend [] (svc_ids st) p (napis_l B) p (napis_l B) p (napis_l B));
+            [exact Hgr| |rewrite app_nil_r; exact Hres2|lia|lia|lia|lia].
+          split; [exact Inv'|]. split; [rewrite app_nil_r; exact Gr'|]. split; [exact Ap'|].
+          split; [rewrite app_nil_r; exact Aw'|]. split; [exact Sid'|exact Di'].
+    - (* the test fails: the loop is left *)
+      mstep. cbn [is_done mlx svc_ids xplace].
+      destruct (loop_else e B p ctx cid xcbs t2 q' g g1 ns m pend HfB Hwall Hnp HP HT Ht2 Hnt2 Hx2 Hinv Hgr Hctx Hm Hin HO
+                          Hdec Hq1 Hlog1 Hsame) as (ns' & m' & Hen & Mk & Ai & Ao & Inv' & Gr' & Ea & Ed & Es).
+      destruct Hsame as (T1 & T2 & T3 & T4 & T5 & T6 & T7).
+      exists ns', m'. split; [exact Hen|]. split; [exact Mk|]. split; [exact Ai|]. split; [exact Ao|].
+      split; [|exact I].
+      split; [exact Inv'|]. split; [rewrite app_nil_r; exact Gr'|]. split; [intros k0 _; rewrite Ea; reflexivity|].
+      split; [rewrite app_nil_r; exact T7|]. split; [rewrite T2; apply Nat.le_refl|].
+      exists []. split; [rewrite Ed; reflexivity|constructor].
+  Qed.
+
   Theorem start_ok : forall f, StartOK f.
   Proof.
     induction f as [f IH] using lt_wf_ind.
-    intros s p ctx cid xcbs t2 g st g' ns m pend H Hf Hw Hnp HP HT Ht2 Hnt2 Hx2 Hinv Hgr Hfr Hctx Hlt Hm Hin HO.
+    intros s p ctx cid xcbs t2 g st g' ns m pend H Hf Hw Hnp HP HT Ht2 Hnt2 Hx2 Hinv Hgr Hctx Hlt Hm Hin HO.
     destruct f as [|f]; [discriminate H|].
-    destruct s as [n at_ ins|t at_ ins bd|bs|e P F| | | ]; try discriminate Hf.
+    destruct s as [n at_ ins|t at_ ins bd|bs|e P F|e B| | ]; try discriminate Hf.
     - eapply start_svc_case; eassumption.
     - eapply (start_call_case f); eassumption.
     - eapply (start_par_case f); eassumption.
     - eapply (start_cond_case f); eassumption.
+    - cbn [start_stmt] in H. eapply (loop_case f); try eassumption. intros f0 Hf0. apply IH. lia.
   Qed.
 
   Theorem start_block_ok : forall f, StartBK f.
@@ -2007,7 +2361,7 @@ Section Sim.
     unfold bind in H. unfold emit in H.
     rewrite emit_gen_eq in H.
     unfold ret in H. injection H as E1 E2. subst st'.
-    cbn [act] in Hact. destruct Hact as (Hapi & Hdict & Hidlt).
+    cbn [act] in Hact. destruct Hact as ((il & Hapi) & Hdict & Hidlt).
     assert (Hfin : finp = pp p + 1) by congruence. subst finp.
     split; [reflexivity|]. split; [lia|].
     cbn [wired] in Hw. destruct Hw as (Hpre & Hpost & _).
@@ -2027,7 +2381,7 @@ Section Sim.
       - apply not_true_iff_false in E. rewrite inb_spec in E. cnt_cases. }
     set (nsf := fire_ns tr ns) in *.
     pose proof (Inv_fire ns tr Hinv Hlen') as Hinvf. pose proof (GR_fire g ns pend tr Hgr) as Hgrf.
-    set (a1 := with_uuid (ITest id) (svc_api n at_ ins ctx (pa p))).
+    set (a1 := with_uuid (ITest id) (svc_api il n at_ ins ctx (pa p))).
     assert (Hapif : nth_error (ns_apis nsf) (pa p) = Some a1) by exact Hapi.
     exists tr, (notified SF a1 false nsf), m'.
     split; [exact Htr|]. split; [exact Hen|]. split.
@@ -2112,9 +2466,6 @@ Section Sim.
       pp bp + nplaces_l l <= nP -> pt bp + ntrans_b l <= nT ->
       t2 < nT -> ~ in_tb l bp t2 -> In (xplace_b l bp) (preN N0 t2) ->
       Inv ns -> GR g ns pend -> ctx_is ns ctx cid -> ctx < pa bp ->
-      (forall k s0 a, i < k -> nth_error l k = Some s0 ->
-                      pa (spos l bp k) <= a < pa (spos l bp k) + napis s0 ->
-                      nth_error (ns_apis ns) a = nth_error (ns_apis N0) a) ->
       (forall q, in_pb l bp q -> ~ in_p s1 (spos l bp i) q -> cnt m q = 0) ->
       Hout (pp bp) (pp bp + nplaces_l l) (pt bp) (pt bp + ntrans_b l) t2 m ->
       Hout (pp (spos l bp i)) (pp (spos l bp i) + nplaces s1) (pt (spos l bp i)) (pt (spos l bp i) + ntrans s1)
@@ -2131,7 +2482,7 @@ Section Sim.
       end.
   Proof.
     intros f l bp ctx cid xcbs t2 i s1 s' g g1 r' g' ns m pend pend0
-           Hfb Hw Hnp Hn Hn' HP HT Ht2 Hnt2 Hx2 Hinv Hgr Hctx Hlt Hfresh Hz HO Houti Hdone Hrun.
+           Hfb Hw Hnp Hn Hn' HP HT Ht2 Hnt2 Hx2 Hinv Hgr Hctx Hlt Hz HO Houti Hdone Hrun.
     set (pi := spos l bp i) in *. set (pj := spos l bp (S i)).
     pose proof (frag_block_nth _ _ _ Hfb Hn) as Hf1. pose proof (frag_block_nth _ _ _ Hfb Hn') as Hf'.
     destruct (wired_block_nth _ _ _ _ _ _ _ _ Hw Hn) as [W1 Wc].
@@ -2156,10 +2507,6 @@ Section Sim.
     pose proof (fire_len nsa m' trc Mka) as Hlenf. fold nsf in Hlenf.
     pose proof (Inv_fire nsa trc Inva Hlenf) as Invf. pose proof (GR_fire _ _ _ trc Gra) as Grf. fold nsf in Invf, Grf.
     assert (Hctxa : ctx_is nsa ctx cid) by (eapply ctx_is_frame; [exact Hctx|exact Fra|lia]).
-    assert (Hfrf : fresh_from nsf l bp (S i)).
-    { intros k0 s0 a Hk0 Hnk Ha. change (ns_apis nsf) with (ns_apis nsa).
-      pose proof (spos_mono l bp i k0 s1 s0 ltac:(lia) Hn Hnk) as Mk'. fold pi in Mk'.
-      rewrite (fr_apis _ _ _ _ Fra) by lia. apply (Hfresh k0 s0 a ltac:(lia) Hnk Ha). }
     assert (Hent : forall q, In q (entries s' pj) -> in_p s' pj q) by (intros q Hq; apply (entries_range s' Hf' pj q Hq)).
     set (m'' := entries s' pj ++ outside (pp bp) (pp bp + nplaces_l l) m').
     assert (Hcnt_in : forall q, in_pb l bp q -> cnt m' q = if Nat.eqb (xplace s1 pi) q then 1 else 0).
@@ -2190,7 +2537,7 @@ Section Sim.
       destruct (inb (pp bp) (pp bp + nplaces_l l) q) eqn:E; [apply inb_spec in E; lia|].
       rewrite (Aoa q ltac:(lia)). lia. }
     destruct (start_block_ok f l bp ctx cid xcbs t2 (S i) s' g1 r' g' nsf m'' (pend0 ++ new1)
-                             Hrun Hn' Hfb Hw Hnp HP HT Ht2 Hnt2 Hx2 Invf Grf Hfrf Hctxa Hlt Mkf Hin'' (Hout_out _ _ _ _ _ _ _ HO Hout''))
+                             Hrun Hn' Hfb Hw Hnp HP HT Ht2 Hnt2 Hx2 Invf Grf Hctxa Hlt Mkf Hin'' (Hout_out _ _ _ _ _ _ _ HO Hout''))
       as (ns2 & m2 & Hen2 & Mk2 & Ai2 & Ao2 & Hres2 & Hact2). fold pj in Hen2.
     pose proof Hres2 as (Inv2 & Gr2 & Ap2 & Aw2 & Sid2 & Di2).
     assert (Hgo : forall K, MS (ns, [] :: K) (nsf, startcbs s' pj ctx :: Unw k K)).
@@ -2285,7 +2632,7 @@ Section Sim.
         { apply Nat.eqb_neq. assert (S i < List.length l) by (apply nth_error_Some; congruence). lia. }
         rewrite Elast in Hres. subst t2i.
         exact (block_continue f l bp ctx cid xcbs t2 i s1 s' g g1 r' g' ns m pend pend0
-                              Hfb Hw Hnp En En' HP HT Ht2 Hnt2 Hx2 Hinv Hgr Hctx Hlt Hfresh Hz HO Houti Hres E2).
+                              Hfb Hw Hnp En En' HP HT Ht2 Hnt2 Hx2 Hinv Hgr Hctx Hlt Hz HO Houti Hres E2).
       + (* it was the last one: the block is complete *)
         assert (Elast : Nat.eqb (S i) (List.length l) = true).
         { apply Nat.eqb_eq. apply nth_error_None in En'. assert (i < List.length l) by (apply nth_error_Some; congruence). lia. }
@@ -2307,10 +2654,7 @@ Section Sim.
         eapply (agrees_in_widen (pp pi) (pp pi + nplaces s1)); [exact Ai|exact Ao|lia|lia|].
         intros q Hq Hnq. split; [apply Hz; [exact Hq|unfold in_p; lia]|].
         apply not_in_cnt. intro Hi. destruct (ml_range N0 ns' st'' s1 pi ctx Hf1 Hact q Hi) as [Hr _]. unfold in_p in Hr. lia.
-      + split; [exact D|]. split; [|rewrite En; exact Hact].
-        intros k s0 a Hk Hnk Hak. destruct Hpost as (_ & Fr & _).
-        pose proof (spos_mono l bp i k s1 s0 Hk En Hnk) as Mk'. fold pi in Mk'.
-        rewrite (fr_apis _ _ _ _ Fr) by lia. apply (Hfresh k s0 a Hk Hnk Hak).
+      + split; [exact D|]. split; [reflexivity|rewrite En; exact Hact].
   Qed.
 
   Lemma del_call_case : forall f, DelB f ->
@@ -2336,7 +2680,7 @@ Section Sim.
            H Hf Hw Hnp HP HT Ht2 Hnt2 Hx2 Hinv Hgr Hrem Hact Hnd Hctx Hlt Hm Hd Hin HO.
     pose proof (frag_call _ _ _ _ Hf) as [Hname Hfb].
     destruct st as [|id0|cid' i sti|sts|b i sti|k i sti|sts]; cbn [act] in Hact; try contradiction; try discriminate Hnd.
-    destruct Hact as (Hapi & Hndi & Hfresh & Ha).
+    destruct Hact as ((il & Hapi) & Hndi & Hfresh & Ha).
     cbn [wired] in Hw. destruct Hw as [Hapi0 Hwb].
     rewrite nplaces_call, ntrans_call, napis_call in *. cbn [xplace] in *.
     set (bp := body_pos p) in *.
@@ -2355,14 +2699,14 @@ Section Sim.
       + exists m'. split; [exact St|]. split; [exact Mk|]. split; [rewrite ml_call; exact Ai|]. split; [exact Ao|].
         eapply Post_widen; [exact Hpost|cbn [bp body_pos pa]; lia|cbn [bp body_pos pa]; lia].
       + destruct Hab' as (D' & Fr' & A'). cbn [act]. destruct Hpost as (_ & Fr & _).
-        split; [rewrite (fr_apis _ _ _ _ Fr) by (cbn [bp body_pos pa]; lia); exact Hapi|].
+        split; [exists il; rewrite (fr_apis _ _ _ _ Fr) by (cbn [bp body_pos pa]; lia); exact Hapi|].
         split; [exact D'|]. split; [exact Fr'|exact A'].
     - (* the body is complete: task finished *)
       unfold bind at 1 in H. unfold emit at 1 in H.
       destruct Hres as (nsa & m' & Hex & Mka & Aia & Aoa & (Inva & Fra & new & Aw & Gra)).
       rewrite emit_gen_eq in H.
       unfold ret in H. injection H as Hs Hg. subst st'. cbn [is_done].
-      set (a1 := with_uuid (ITest cid') (call_api t at_ ins ctx (pa p))) in *.
+      set (a1 := with_uuid (ITest cid') (call_api il t at_ ins ctx (pa p))) in *.
       assert (Hapia : nth_error (ns_apis nsa) (pa p) = Some a1).
       { rewrite (fr_apis _ _ _ _ Fra) by (cbn [bp body_pos pa]; lia). exact Hapi. }
       assert (Hctxa : ctx_is nsa ctx cid) by (eapply ctx_is_frame; [exact Hctx|exact Fra|cbn [bp body_pos pa]; lia]).
@@ -2664,13 +3008,14 @@ Section Sim.
 
   (* ---- delivery into a Condition: the chosen branch is a block; when it is complete the
           second transition of that branch puts the token on the 'finished' place ---- *)
-  Lemma del_cond_branch : forall f, DelB f ->
-      forall B cb sb PL PH TL TH AL AH ctx cid xcbs t2 i sti id g r g' ns m pend pend0 finp,
+  Lemma del_branch : forall f, DelB f ->
+      forall B cb sb x PL PH TL TH AL AH ctx cid xcbs t2 i sti id g r g' ns m pend pend0 finp,
         frag_block B = true -> wired_block (wired N0) N0 ctx [] B cb ->
         PL + 4 <= pp cb -> pp cb + nplaces_l B <= PH -> TL + 3 <= pt cb -> pt cb + ntrans_b B <= TH ->
         AL <= pa cb -> pa cb + napis_l B <= AH ->
         TL + 2 <= sb < TH -> ~ in_tb B cb sb ->
-        preN N0 sb = [xplace_b B cb] -> postN N0 sb = [PL + 3] -> cbsN N0 sb = xcbs -> no_parloop xcbs = true ->
+        preN N0 sb = [xplace_b B cb] -> postN N0 sb = [x] -> cbsN N0 sb = xcbs -> no_parloop xcbs = true ->
+        PL <= x < PL + 4 ->
         (forall j, TL <= j < TH -> ~ in_tb B cb j -> j <> sb ->
                    exists q, In q (preN N0 j) /\ PL <= q < PH /\ ~ in_pb B cb q) ->
         PH <= nP -> TH <= nT -> t2 < nT -> ~ (TL <= t2 < TH) -> In (PL + 3) (preN N0 t2) ->
@@ -2681,14 +3026,14 @@ Section Sim.
         Hout PL PH TL TH t2 m ->
         deliver_block orc imm f cid [] B i sti id g = Ok (Some r, g') ->
         match r with
-        | None => DoneForm ns m g g' pend0 PL PH AL AH xcbs (PL + 3)
+        | None => DoneForm ns m g g' pend0 PL PH AL AH xcbs x
         | Some (j, st') =>
           exists ns', StayForm ns m g g' pend0 PL PH AL AH (ml_block B cb j st') ns' /\
                       act_block N0 ns' B cb ctx j st'
         end.
   Proof.
-    intros f HB B cb sb PL PH TL TH AL AH ctx cid xcbs t2 i sti id g r g' ns m pend pend0 finp
-           HfB WB R1 R2 R3 R4 R5 R6 Hsb Hnsb Psb Qsb Csb Hnp Hoth HP HT Ht2 Hnt2 Hx2
+    intros f HB B cb sb x PL PH TL TH AL AH ctx cid xcbs t2 i sti id g r g' ns m pend pend0 finp
+           HfB WB R1 R2 R3 R4 R5 R6 Hsb Hnsb Psb Qsb Csb Hnp Hxr Hoth HP HT Ht2 Hnt2 Hx2
            Hinv Hgr Hrem Hab Hid Hctx Hlt Hm Hd Hin HO H.
     assert (Hmlr : forall q, In q (ml_block B cb i sti) -> in_pb B cb q)
       by (intros q Hq; apply (ml_range_block N0 ns B cb ctx i sti HfB Hab q Hq)).
@@ -2724,13 +3069,42 @@ Section Sim.
       intros q Hq Hnq. split; [apply Hz; [exact Hq|exact Hnq]|].
       apply not_in_cnt. intro Hi. apply (ml_range_block N0 ns' B cb ctx j st'' HfB Hab' q) in Hi. apply Hnq. apply Hi.
     - destruct Hres as (nsa & m' & [k Hk] & Mka & Aia & Aoa & (Inva & Fra & new & Aw & Gra)).
-      destruct (cond_exit B cb sb PL PH xcbs ctx nsa m m' HfB WB R1 R2 HP ltac:(lia) Psb Qsb Csb Hnp HoutB Hz Inva Mka Aia Aoa)
+      destruct (block_exit B cb sb x PL PH xcbs ctx nsa m m' HfB WB R1 R2 HP ltac:(lia) Hxr Psb Qsb Csb Hnp HoutB Hz Inva Mka Aia Aoa)
         as (trs & Hms & Mk5 & Inv5 & Ai5 & Ao5). cbv zeta in Hms, Mk5, Inv5, Ai5, Ao5.
       eexists. eexists. split; [exists k; intro K; eapply MS_trans; [apply Hk|apply Hms]|].
       split; [exact Mk5|]. split; [exact Ai5|]. split; [exact Ao5|].
       split; [exact Inv5|]. split.
       + destruct Fra as [A1 S1 D1]. constructor; [intros k0 Hk0; apply A1; lia|exact S1|exact D1].
       + exists new. split; [exact Aw|apply GR_fire; exact Gra].
+  Qed.
+
+  Lemma del_cond_branch : forall f, DelB f ->
+      forall B cb sb PL PH TL TH AL AH ctx cid xcbs t2 i sti id g r g' ns m pend pend0 finp,
+        frag_block B = true -> wired_block (wired N0) N0 ctx [] B cb ->
+        PL + 4 <= pp cb -> pp cb + nplaces_l B <= PH -> TL + 3 <= pt cb -> pt cb + ntrans_b B <= TH ->
+        AL <= pa cb -> pa cb + napis_l B <= AH ->
+        TL + 2 <= sb < TH -> ~ in_tb B cb sb ->
+        preN N0 sb = [xplace_b B cb] -> postN N0 sb = [PL + 3] -> cbsN N0 sb = xcbs -> no_parloop xcbs = true ->
+        (forall j, TL <= j < TH -> ~ in_tb B cb j -> j <> sb ->
+                   exists q, In q (preN N0 j) /\ PL <= q < PH /\ ~ in_pb B cb q) ->
+        PH <= nP -> TH <= nT -> t2 < nT -> ~ (TL <= t2 < TH) -> In (PL + 3) (preN N0 t2) ->
+        Inv ns -> GR g ns pend -> remove_first (Nat.eqb id) pend = Some pend0 ->
+        act_block N0 ns B cb ctx i sti -> In id (svc_ids sti) -> ctx_is ns ctx cid -> ctx < AL ->
+        Marks ns m -> dict_get ident_eqb (ITest id) (ns_place_dict ns) = Some finp ->
+        (forall q, PL <= q < PH -> cnt m q = cnt (ml_block B cb i sti) q + (if Nat.eqb q finp then 1 else 0)) ->
+        Hout PL PH TL TH t2 m ->
+        deliver_block orc imm f cid [] B i sti id g = Ok (Some r, g') ->
+        match r with
+        | None => DoneForm ns m g g' pend0 PL PH AL AH xcbs (PL + 3)
+        | Some (j, st') =>
+          exists ns', StayForm ns m g g' pend0 PL PH AL AH (ml_block B cb j st') ns' /\
+                      act_block N0 ns' B cb ctx j st'
+        end.
+  Proof.
+    intros f HB B cb sb PL PH TL TH AL AH ctx cid xcbs t2 i sti id g r g' ns m pend pend0 finp
+           HfB WB R1 R2 R3 R4 R5 R6 Hsb Hnsb Psb Qsb Csb Hnp.
+    apply (del_branch f HB B cb sb (PL + 3) PL PH TL TH AL AH ctx cid xcbs t2 i sti id g r g' ns m pend pend0 finp
+                      HfB WB R1 R2 R3 R4 R5 R6 Hsb Hnsb Psb Qsb Csb Hnp). lia.
   Qed.
 
   Lemma del_cond_case : forall f, DelB f ->
@@ -2754,13 +3128,41 @@ Section Sim.
   Proof.
     intros f HB e P F p ctx cid xcbs t2 st id g st' g' ns m pend pend0 finp
            H Hf Hw Hnp HP HT Ht2 Hnt2 Hx2 Hinv Hgr Hrem Hact Hnd Hctx Hlt Hm Hd Hin HO.
-    pose proof (frag_cond _ _ _ Hf) as [HfP HfF].
     destruct st as [|id0|cid' i sti|sts|b i sti|k i sti|sts]; cbn [act] in Hact; try contradiction; try discriminate Hnd.
     pose proof (found_in _ _ _ _ _ _ _ _ H) as Hid. cbn [svc_ids] in Hid.
     change (act_block N0 ns (if b then P else F) (if b then cond_p p else cond_f P p) ctx i sti) in Hact. rewrite ml_cond in Hin.
-    rewrite nplaces_cond, ntrans_cond, napis_cond in *. unfold in_t, in_p in *. rewrite ?nplaces_cond, ?ntrans_cond in *.
+    destruct (list_nil_dec F) as [->|HneF].
+    { (* no Failed block: the Passed block is active *)
+      destruct b; [|destruct Hact as (_ & _ & Hact); destruct i; contradiction].
+      pose proof (frag_cond0 _ _ Hf) as HfP.
+      rewrite nplaces_cond, ntrans_cond0, napis_cond in *. unfold in_t, in_p in *. rewrite ?nplaces_cond, ?ntrans_cond0 in *.
+      change (nplaces_l (@nil xstmt)) with 0 in *. change (napis_l (@nil xstmt)) with 0 in *. rewrite ?Nat.add_0_r in *.
+      cbn [xplace] in *.
+      cbn [wired] in Hw. destruct Hw as (W1 & W2 & W3 & W4 & W5 & W6 & W7 & W8 & W9 & WP).
+      pose proof (xplace_range_b P HfP (cond_p p)) as XP. cbn [cond_p pp] in XP.
+      cbn [deliver] in H. mstep as r g1 E1. destruct r as [r|]; [|mstep; discriminate].
+      pose proof (del_cond_branch f HB P (cond_p p) (pt p + 2)
+                 (pp p) (pp p + (4 + nplaces_l P)) (pt p) (pt p + (3 + ntrans_b P))
+                 (pa p) (pa p + napis_l P) ctx cid xcbs t2 i sti id g r g1 ns m pend pend0 finp HfP WP
+                 ltac:(cbn [cond_p pp]; lia) ltac:(cbn [cond_p pp]; lia) ltac:(cbn [cond_p pt]; lia)
+                 ltac:(cbn [cond_p pt]; lia) ltac:(cbn [cond_p pa]; lia) ltac:(cbn [cond_p pa]; lia)
+                 ltac:(lia) ltac:(unfold in_tb; cbn [cond_p pt]; lia) W7 W8 W9 Hnp) as Hres.
+      assert (Hoth : forall j, pt p <= j < pt p + (3 + ntrans_b P) -> ~ in_tb P (cond_p p) j -> j <> pt p + 2 ->
+                               exists q, In q (preN N0 j) /\ pp p <= q < pp p + (4 + nplaces_l P) /\ ~ in_pb P (cond_p p) q).
+      { intros j Hj Hnj Hns. unfold in_tb in Hnj. cbn [cond_p pt] in Hnj.
+        destruct (Nat.eq_dec j (pt p)) as [->|N0']; [|assert (j = pt p + 1) by lia; subst j].
+        - exists (pp p). rewrite W1. split; [right; left; reflexivity|]. unfold in_pb. cbn [cond_p pp]. split; lia.
+        - exists (pp p + 1). rewrite W4. split; [right; left; reflexivity|]. unfold in_pb. cbn [cond_p pp]. split; lia. }
+      specialize (Hres Hoth HP HT Ht2 Hnt2 Hx2 Hinv Hgr Hrem Hact Hid Hctx Hlt Hm Hd Hin HO E1).
+      destruct r as [[j st'']|].
+      - unfold ret in H. injection H as Hs Hg. subst st' g1. cbn [is_done].
+        destruct Hres as (ns' & Hstay & Hab'). exists ns'. split; [rewrite ml_cond; exact Hstay|rewrite act_cond; exact Hab'].
+      - unfold ret in H. injection H as Hs Hg. subst st' g1. cbn [is_done]. exact Hres. }
+    pose proof (frag_cond_ne _ _ _ HneF Hf) as [HfP HfF].
+    rewrite nplaces_cond, (ntrans_cond_ne _ _ _ HneF), napis_cond in *. unfold in_t, in_p in *.
+    rewrite ?nplaces_cond, ?(ntrans_cond_ne _ _ _ HneF) in *.
     cbn [xplace] in *.
-    cbn [wired] in Hw. destruct Hw as (W1 & W2 & W3 & W4 & W5 & W6 & W7 & W8 & W9 & W10 & W11 & W12 & WP & WF).
+    rewrite (wired_cond_ne _ _ _ _ _ _ _ HneF) in Hw. destruct Hw as (W1 & W2 & W3 & W4 & W5 & W6 & W7 & W8 & W9 & W10 & W11 & W12 & WP & WF).
     pose proof (xplace_range_b P HfP (cond_p p)) as XP. cbn [cond_p pp] in XP.
     pose proof (xplace_range_b F HfF (cond_f P p)) as XF. cbn [cond_f pp] in XF.
     cbn [deliver] in H. mstep as r g1 E1. destruct r as [r|]; [|mstep; discriminate].
@@ -2806,13 +3208,99 @@ Section Sim.
     - unfold ret in H. injection H as Hs Hg. subst st' g1. cbn [is_done]. exact Hres.
   Qed.
 
+  Theorem loop_ok : forall f, LoopOK f.
+  Proof. intro f. apply loop_case. intros f0 _. apply start_ok. Qed.
+
+  (* ---- delivery into a while loop: into the body; when the body is complete the iteration
+          transition fires and the test runs again ---- *)
+  Lemma del_while_case : forall f, DelB f ->
+      forall e B p ctx cid xcbs t2 st id g st' g' ns m pend pend0 finp,
+        deliver orc imm (S f) cid [] (XWhile e B) st id g = Ok (Some st', g') ->
+        frag (XWhile e B) = true -> wired N0 (XWhile e B) p ctx xcbs -> no_parloop xcbs = true ->
+        pp p + nplaces (XWhile e B) <= nP -> pt p + ntrans (XWhile e B) <= nT ->
+        t2 < nT -> ~ in_t (XWhile e B) p t2 -> In (xplace (XWhile e B) p) (preN N0 t2) ->
+        Inv ns -> GR g ns pend -> remove_first (Nat.eqb id) pend = Some pend0 ->
+        act N0 ns st (XWhile e B) p ctx -> is_done st = false -> ctx_is ns ctx cid -> ctx < pa p ->
+        Marks ns m -> dict_get ident_eqb (ITest id) (ns_place_dict ns) = Some finp ->
+        (forall q, in_p (XWhile e B) p q ->
+                   cnt m q = cnt (ml st (XWhile e B) p) q + (if Nat.eqb q finp then 1 else 0)) ->
+        Hout (pp p) (pp p + nplaces (XWhile e B)) (pt p) (pt p + ntrans (XWhile e B)) t2 m ->
+        if is_done st'
+        then DoneForm ns m g g' pend0 (pp p) (pp p + nplaces (XWhile e B)) (pa p) (pa p + napis (XWhile e B))
+                      xcbs (xplace (XWhile e B) p)
+        else exists ns', StayForm ns m g g' pend0 (pp p) (pp p + nplaces (XWhile e B)) (pa p)
+                                  (pa p + napis (XWhile e B)) (ml st' (XWhile e B) p) ns' /\
+                         act N0 ns' st' (XWhile e B) p ctx.
+  Proof.
+    intros f HB e B p ctx cid xcbs t2 st id g st' g' ns m pend pend0 finp
+           H Hf Hw Hnp HP HT Ht2 Hnt2 Hx2 Hinv Hgr Hrem Hact Hnd Hctx Hlt Hm Hd Hin HO.
+    destruct st as [|id0|cid' i sti|sts|b i sti|k i sti|sts]; cbn [act] in Hact; try contradiction; try discriminate Hnd.
+    pose proof (found_in _ _ _ _ _ _ _ _ H) as Hid. cbn [svc_ids] in Hid.
+    change (act_block N0 ns B (cond_p p) ctx i sti) in Hact. rewrite ml_loop in Hin.
+    pose proof (frag_while _ _ Hf) as HfB. pose proof Hw as Hwall. pose proof HO as HOall. pose proof Hx2 as Hx2all.
+    pose proof HP as HPall. pose proof HT as HTall. pose proof Hnt2 as Hnt2all.
+    rewrite nplaces_while, ntrans_while, napis_while in *. unfold in_t, in_p in *. rewrite ?nplaces_while, ?ntrans_while in *.
+    cbn [xplace] in Hx2 |- *.
+    cbn [wired] in Hw. destruct Hw as (W1 & W2 & W3 & W4 & W5 & W6 & W7 & W8 & W9 & WB).
+    pose proof (xplace_range_b B HfB (cond_p p)) as XB. cbn [cond_p pp] in XB.
+    set (CW := CbWhile e (pp p + 1) (pp p + 2) ctx) in *.
+    cbn [deliver] in H. mstep as r g1 E1. destruct r as [r|]; [|mstep; discriminate].
+    pose proof (del_branch f HB B (cond_p p) (pt p + 2) (pp p)
+                 (pp p) (pp p + (4 + nplaces_l B)) (pt p) (pt p + (3 + ntrans_b B))
+                 (pa p) (pa p + napis_l B) ctx cid [CW] t2 i sti id g r g1 ns m pend pend0 finp HfB WB
+                 ltac:(cbn [cond_p pp]; lia) ltac:(cbn [cond_p pp]; lia) ltac:(cbn [cond_p pt]; lia)
+                 ltac:(cbn [cond_p pt]; lia) ltac:(cbn [cond_p pa]; lia) ltac:(cbn [cond_p pa]; lia)
+                 ltac:(lia) ltac:(unfold in_tb; cbn [cond_p pt]; lia) W7 W8 W9 eq_refl ltac:(lia)) as Hres.
+    assert (Hoth : forall j, pt p <= j < pt p + (3 + ntrans_b B) -> ~ in_tb B (cond_p p) j -> j <> pt p + 2 ->
+                             exists q, In q (preN N0 j) /\ pp p <= q < pp p + (4 + nplaces_l B) /\ ~ in_pb B (cond_p p) q).
+    { intros j Hj Hnj Hns. unfold in_tb in Hnj. cbn [cond_p pt] in Hnj.
+      destruct (Nat.eq_dec j (pt p)) as [->|N0']; [|assert (j = pt p + 1) by lia; subst j].
+      - exists (pp p). rewrite W1. split; [left; reflexivity|]. unfold in_pb. cbn [cond_p pp]. split; lia.
+      - exists (pp p). rewrite W4. split; [left; reflexivity|]. unfold in_pb. cbn [cond_p pp]. split; lia. }
+    specialize (Hres Hoth HP HT Ht2 Hnt2 Hx2 Hinv Hgr Hrem Hact Hid Hctx Hlt Hm Hd Hin HO E1).
+    destruct r as [[j st'']|].
+    - (* still inside the body *)
+      unfold ret in H. injection H as Hs Hg. subst st' g1. cbn [is_done].
+      destruct Hres as (ns' & Hstay & Hab'). exists ns'. split; [rewrite ml_loop; exact Hstay|rewrite act_loop; exact Hab'].
+    - (* the body is complete: the iteration transition has fired, the test runs again *)
+      mstep as st2 g2 E2. unfold ret in H. injection H as Hs Hg. subst st' g2.
+      destruct Hres as (ns5 & m5 & [kk Hkk] & Mk5 & Ai5 & Ao5 & (Inv5 & Fr5 & new & Aw5 & Gr5)).
+      assert (Hctx5 : ctx_is ns5 ctx cid) by (eapply ctx_is_frame; [exact Hctx|exact Fr5|lia]).
+      destruct (loop_ok f e B p ctx cid xcbs t2 (S k) g1 st2 g' ns5 m5 (pend0 ++ new) E2 Hf Hwall Hnp HPall HTall Ht2 Hnt2all Hx2all
+                        Inv5 Gr5 Hctx5 Hlt Mk5)
+        as (ns6 & m6 & Hen & Mk6 & Ai6 & Ao6 & Hres6 & Hact6).
+      { unfold in_p. rewrite nplaces_while. intros q Hq. cbn [entries]. exact (Ai5 q Hq). }
+      { rewrite nplaces_while, ntrans_while. exact (Hout_out _ _ _ _ _ _ _ HO Ao5). }
+      rewrite ?nplaces_while, ?napis_while in *. cbn [startcbs] in Hen. fold CW in Hen.
+      pose proof Hres6 as (Inv6 & Gr6 & Ap6 & Aw6 & Sid6 & Di6).
+      assert (Ao6' : agrees_out (pp p) (pp p + (4 + nplaces_l B)) m m6).
+      { intros q Hq. rewrite (Ao6 q Hq). apply Ao5. exact Hq. }
+      assert (Hpost6 : Post ns ns6 g g' pend0 (pa p) (pa p + napis_l B)).
+      { split; [exact Inv6|]. split.
+        - eapply (Frame_trans ns ns5 ns6); [exact Fr5|apply (Frame_of_StartRes _ _ _ _ _ _ _ _ Gr5 Hres6)|lia|lia|lia|lia].
+        - exists (new ++ svc_ids st2). split; [rewrite Aw6, Aw5, app_assoc; reflexivity|].
+          rewrite app_assoc. exact Gr6. }
+      destruct (is_done st2) eqn:D; cbn [Enters] in Hen.
+      + pose proof (is_done_RDone _ D) as ->. cbn [mlx xplace] in Ai6.
+        exists ns6, m6. split; [|split; [exact Mk6|split; [exact Ai6|split; [exact Ao6'|exact Hpost6]]]].
+        destruct Hen as [k2 Hk2]. exists (k2 + S kk). intro K. eapply MS_trans; [apply Hkk|].
+        specialize (Hk2 [] (Unw kk K)). cbn [app] in Hk2. rewrite Unw_nest in Hk2. exact Hk2.
+      + rewrite (mlx_nd _ _ _ D) in Ai6. exists ns6. split; [|exact Hact6].
+        exists m6. split; [|split; [exact Mk6|split; [exact Ai6|split; [exact Ao6'|exact Hpost6]]]].
+        intro K. eapply MS_trans; [apply Hkk|].
+        eapply MS_trans; [specialize (Hen [] (Unw kk K)); cbn [app] in Hen; exact Hen|].
+        change ([] :: Unw kk K) with (Unw (S kk) K). rewrite Unw_S'.
+        apply MS_unwind; [exact Inv6|]. apply (dis_dead ns6 m6 Inv6 Mk6).
+        apply (stmt_dis (XWhile e B) p ctx xcbs t2 st2 ns6 m m6 Hf Hwall D Hx2all); rewrite ?nplaces_while, ?ntrans_while; assumption.
+  Qed.
+
   Theorem del_ok : forall f, DelS f.
   Proof.
     induction f as [f IH] using lt_wf_ind.
     intros s p ctx cid xcbs t2 st id g st' g' ns m pend pend0 finp
            H Hf Hw Hnp HP HT Ht2 Hnt2 Hx2 Hinv Hgr Hrem Hact Hnd Hctx Hlt Hm Hd Hin HO.
     destruct f as [|f]; [discriminate H|].
-    destruct s as [n at_ ins|t at_ ins bd|bs|e P F| | | ]; try discriminate Hf.
+    destruct s as [n at_ ins|t at_ ins bd|bs|e P F|e B| | ]; try discriminate Hf.
     - (* service *)
       destruct st as [|id0|cid' i sti|sts|b i sti|k i sti|sts]; cbn [act] in Hact; try contradiction; try discriminate Hnd.
       unfold in_t, in_p in *. cbn [nplaces ntrans napis xplace ml] in *.
@@ -2837,6 +3325,11 @@ Section Sim.
       { destruct f as [|f']; [intros ? ? ? ? ? ? ? ? ? ? ? ? ? ? ? ? ? HH; discriminate HH|].
         apply del_block_case. apply IH. lia. }
       eapply (del_cond_case f HB); eassumption.
+    - (* while loop *)
+      assert (HB : DelB f).
+      { destruct f as [|f']; [intros ? ? ? ? ? ? ? ? ? ? ? ? ? ? ? ? ? HH; discriminate HH|].
+        apply del_block_case. apply IH. lia. }
+      eapply (del_while_case f HB); eassumption.
   Qed.
 
   Theorem del_block_ok : forall f, DelB f.
@@ -3002,7 +3495,7 @@ Section Sim.
     set (nsc := ns <| ns_log := [] |>).
     set (s1 := (nsc <| ns_running := true |>) <| ns_awaited := [] |>).
     assert (Inv1 : Inv s1).
-    { destruct Hinv as [I1 I2 I3 I4 I5 I6 I7 I8 I9 I10]. constructor; assumption. }
+    { destruct Hinv as [I1 I2 I3 I4 I5 I6 I7 I8 I9 I10 I11]. constructor; assumption. }
     assert (Gr1 : GR g1 s1 []).
     { constructor; try assumption; try reflexivity; cbn; try congruence. rewrite F4. reflexivity. }
     assert (Hlen0 : 0 < List.length (ns_places s1)).
@@ -3010,7 +3503,7 @@ Section Sim.
     assert (Mk1 : Marks (placed 0 s1) [0]) by (apply Marks_placed; [exact Hmk|exact Hlen0]).
     set (s2 := placed 0 s1) in *.
     assert (Inv2 : Inv s2).
-    { destruct Inv1 as [I1 I2 I3 I4 I5 I6 I7 I8 I9 I10]. constructor; try assumption.
+    { destruct Inv1 as [I1 I2 I3 I4 I5 I6 I7 I8 I9 I10 I11]. constructor; try assumption.
       unfold s2, placed. cbn [ns_places set]. rewrite upd_length. exact I8. }
     assert (Gr2 : GR g1 s2 []) by (destruct Gr1; constructor; assumption).
     (* c1 *)
@@ -3023,15 +3516,12 @@ Section Sim.
     pose proof (Inv_fire s2 tr1 Inv2 Hlenf) as Invf. pose proof (GR_fire _ _ _ tr1 Gr2) as Grf. fold nsf in Invf, Grf.
     assert (Hapi0 : nth_error (ns_apis nsf) 0 = Some root_api).
     { change (ns_apis nsf) with (ns_apis ns). rewrite Hapis. apply (no_root _ _ HN0). }
-    destruct (sim_TS 0 root_api None g1 g3 nsf [] Invf Grf Hapi0 eq_refl I)
+    destruct (sim_TS 0 root_api None g1 g3 nsf [] Invf Grf Hapi0 eq_refl eq_refl I)
       as (Hrun1 & Hcbs1 & Inv3 & Gr3 & Pl3 & Ap3 & Di3).
     { unfold g3, g_step. rewrite Htid1. cbn [root_api a_name a_site a_params]. repeat split; reflexivity. }
     set (ns3 := notified TS (with_uuid (ITest (ns_tid nsf)) root_api) false (ts_pre 0 nsf)) in *.
     assert (Hn0' : exists s0, nth_error body 0 = Some s0) by (destruct body; [discriminate Hfrag|eexists; reflexivity]).
     destruct Hn0' as [s0 Hn0].
-    assert (Hfr3 : fresh_from ns3 body p0 0).
-    { intros k s1' a Hk Hnk Ha. pose proof (spos_range body p0 k s1' Hnk) as Rk. cbn [p0 pa] in Rk.
-      rewrite Ap3, nth_error_upd_neq by lia. change (ns_apis nsf) with (ns_apis ns). apply Hapis. }
     assert (Hctx3 : ctx_is ns3 0 0).
     { eexists. split; [rewrite Ap3; apply nth_error_upd_eq; exact Hapi0|]. cbn [with_uuid a_uuid]. rewrite Htid1. reflexivity. }
     pose proof (frag_block_nth _ _ _ Hfrag Hn0) as Hfs0.
@@ -3053,7 +3543,7 @@ Section Sim.
     destruct (start_block_ok fu body p0 0 0 [] 1 0 s0 g3 r g4 ns3 m3 [] E4 Hn0 Hfrag (no_body _ _ HN0) eq_refl
                              ltac:(rewrite nP_eq; cbn [p0 pp]; lia) ltac:(rewrite nT_eq; cbn [p0 pt]; lia) H1T
                              ltac:(unfold in_tb; cbn [p0 pt]; lia) ltac:(rewrite Q1; left; reflexivity)
-                             Inv3 Gr3 Hfr3 Hctx3 ltac:(cbn [p0 pa]; lia) Mk3 ltac:(intros q _; reflexivity) (root_Hout m3 H03))
+                             Inv3 Gr3 Hctx3 ltac:(cbn [p0 pa]; lia) Mk3 ltac:(intros q _; reflexivity) (root_Hout m3 H03))
       as (ns4 & m4 & Hen4 & Mk4 & Ai4 & Ao4 & Hres4 & Hact4).
     pose proof Hres4 as (Inv4 & Gr4 & Ap4 & Aw4 & Sid4 & Di4).
     assert (Hapi4 : nth_error (ns_apis ns4) 0 = Some root_api).
@@ -3134,7 +3624,7 @@ Section Sim.
       act_block N0 a l bp ctx i st -> act_block N0 b l bp ctx i st.
   Proof.
     intros a b l bp ctx i st Hf Ea Ed Es (H1 & H2 & H3). split; [exact H1|]. split.
-    - intros k s0 x Hk Hn Hx. rewrite Ea. apply (H2 k s0 x Hk Hn Hx).
+    - reflexivity.
     - destruct (nth_error l i) as [s'|] eqn:En; [|contradiction].
       apply (act_mono N0 a b st s' _ ctx (frag_block_nth _ _ _ Hf En) H3).
       + intros k _. rewrite Ea. reflexivity.
@@ -3170,7 +3660,7 @@ Section Sim.
     (* the net side *)
     set (nsc := ns <| ns_log := [] |>).
     set (s1' := nsc <| ns_awaited := map EvF aw' |>).
-    assert (Inv1 : Inv s1') by (destruct Hinv as [I1 I2 I3 I4 I5 I6 I7 I8 I9 I10]; constructor; assumption).
+    assert (Inv1 : Inv s1') by (destruct Hinv as [I1 I2 I3 I4 I5 I6 I7 I8 I9 I10 I11]; constructor; assumption).
     assert (Gr1 : GR g2 s1' (g_awaited (sc_g sc))).
     { destruct Hgr as [G1 G2 G3 G4 G5 G6 G7 G8 G9 G10]. constructor; try assumption; reflexivity. }
     assert (Hlenp : finp < List.length (ns_places s1')).
@@ -3178,7 +3668,7 @@ Section Sim.
     assert (Mk1 : Marks (placed finp s1') (finp :: ml_block body p0 i sti)) by (apply Marks_placed; [exact Hmk|exact Hlenp]).
     set (s2 := placed finp s1') in *.
     assert (Inv2 : Inv s2).
-    { destruct Inv1 as [I1 I2 I3 I4 I5 I6 I7 I8 I9 I10]. constructor; try assumption.
+    { destruct Inv1 as [I1 I2 I3 I4 I5 I6 I7 I8 I9 I10 I11]. constructor; try assumption.
       unfold s2, placed. cbn [ns_places set]. rewrite upd_length. exact I8. }
     assert (Gr2 : GR g2 s2 (g_awaited (sc_g sc))) by (destruct Gr1; constructor; assumption).
     assert (Hab2 : act_block N0 s2 body p0 0 i sti) by (apply (act_block_same ns s2); try assumption; reflexivity).
@@ -3238,7 +3728,7 @@ Section Sim.
   Lemma Rel_clear : forall sc ns, Rel sc ns -> Rel (cleared_sc sc) (ns <| ns_log := [] |>).
   Proof.
     intros sc ns (Hinv & Hlog & Hrel). split; [|split; [reflexivity|]].
-    - destruct Hinv as [I1 I2 I3 I4 I5 I6 I7 I8 I9 I10]. constructor; assumption.
+    - destruct Hinv as [I1 I2 I3 I4 I5 I6 I7 I8 I9 I10 I11]. constructor; assumption.
     - cbn [cleared_sc sc_root sc_g]. destruct (sc_root sc) as [[|id0|cid i sti|sts|bb i sti|k i sti|sts]|]; try contradiction.
       + destruct Hrel as (Hgr & Hmk). split; [|exact Hmk].
         destruct Hgr as [G1 G2 G3 G4 G5 G6 G7 G8 G9 G10]. constructor; try assumption; reflexivity.
@@ -3316,6 +3806,8 @@ Section Sim.
       + apply (no_start _ _ HN0).
       + apply (no_final _ _ HN0).
       + exists []. split; [reflexivity|constructor].
+      + intros k a0 Hk. exists (a_uuid a0). split; [rewrite Hk; destruct a0; reflexivity|].
+        intros _ k' Hk'. split; [rewrite Hk'; reflexivity|]. intros i Hi. congruence.
     - cbn [sched0 sc_root sc_g]. split; [repeat split; reflexivity|]. split; [exact S2|]. split.
       + split.
         * intros q Hq. rewrite (no_places _ _ HN0) in *. rewrite repeat_length in Hq. exists 0.
@@ -3360,7 +3852,7 @@ Section Sim.
       Rel {| sc_g := sc_g sc <| g_ls := ls' |>; sc_root := sc_root sc |} (ns <| ns_ls := ls' |>).
   Proof.
     intros sc ns ls' (Hinv & Hlog & Hrel) Hok. split; [|split; [exact Hlog|]].
-    - destruct Hinv as [I1 I2 I3 I4 I5 I6 I7 I8 I9 I10]. constructor; assumption.
+    - destruct Hinv as [I1 I2 I3 I4 I5 I6 I7 I8 I9 I10 I11]. constructor; assumption.
     - cbn [sc_root sc_g]. destruct (sc_root sc) as [[|id0|cid i sti|sts|bb i sti|k i sti|sts]|]; try contradiction.
       + destruct Hrel as (Hgr & Hmk). split; [|exact Hmk].
         destruct Hgr as [G1 G2 G3 G4 G5 G6 G7 G8 G9 G10]. constructor; try assumption; reflexivity.
@@ -3376,7 +3868,7 @@ Section Sim.
       Rel {| sc_g := sc_g sc <| g_obs := obs' |>; sc_root := sc_root sc |} (ns <| ns_obs := obs' |>).
   Proof.
     intros sc ns obs' (Hinv & Hlog & Hrel). split; [|split; [exact Hlog|]].
-    - destruct Hinv as [I1 I2 I3 I4 I5 I6 I7 I8 I9 I10]. constructor; assumption.
+    - destruct Hinv as [I1 I2 I3 I4 I5 I6 I7 I8 I9 I10 I11]. constructor; assumption.
     - cbn [sc_root sc_g]. destruct (sc_root sc) as [[|id0|cid i sti|sts|bb i sti|k i sti|sts]|]; try contradiction.
       + destruct Hrel as (Hgr & Hmk). split; [|exact Hmk].
         destruct Hgr as [G1 G2 G3 G4 G5 G6 G7 G8 G9 G10]. constructor; try assumption; reflexivity.
